@@ -1,568 +1,536 @@
 """C17 Site routing: exact match, longest prefix for nested sites, matching discovery."""
 
 import ast
+import itertools
+import urllib.parse
 
 from ..rulekit import *
-from ..norm import Normalizer, Poly, NormError
 from ..exc import EscapeAnalysis
-from ._c16c17kit import *
+from ._kit_c17 import *
 
 R = Rules(
     "C17",
     explanation=(
-        "Structural clauses of resource.Site and resource.WKCResource decided on the syntax trees of resource.py and "
-        "message.py: (a) the exact-match test on _resources is evaluated for every request, its miss outcome dominates "
-        "every access to _subsites and its hit outcome returns the resource stored under the request path; (b) the "
-        "prefix search is one of two enumerated loop idioms in which the candidate starts as the request path without "
-        "its last element, loses exactly its last element once per iteration after the membership test, the remainder "
-        "is built by prepending that element (so candidate + remainder = request path is a loop invariant, checked as a "
-        "sequence normal form), the loop returns at the first member of _subsites, a remainder of [\"\"] is mapped to [] "
-        "and exhaustion raises KeyError; (c) all callers (floor 4) catch that KeyError and map it to 4.04 / the "
-        "documented default; (d) the two tables are written only by __init__, add_resource and remove_resource, lookup "
-        "and listing read no other per-site container, add_resource files PathCapable objects under _subsites and "
-        "everything else under _resources keyed by tuple(path), remove_resource deletes from one of the two; (e) both "
-        "stripping arms store _original_request_path (from an existing attribute or the full path) on the copy and "
-        "get_request_uri prefers the attribute of the same name; (f) the listing iterates exactly the two tables, "
-        "skips a resource only when its description is None, and prefixes nested links with the sub-site's path; (g) "
-        "the RFC 6690 filter treats a trailing '*' as prefix match and anything else as equality, matches rt/if/ct per "
-        "space-separated token and href on the single value, and ignores query items without '='.  Not decided: "
-        "behaviour for arbitrary registration trees at run time."
+        "Clauses of resource.Site, resource.WKCResource and Message.get_request_uri decided on the syntax trees of the package.  "
+        "Clauses a, b, d, e, f, g are small-scope model checks: the checker's own evaluator (rules/_kit_c17.Interp, an interpreter for a "
+        "subset of Python over the syntax trees of the analysed program; no repository code is imported or executed) evaluates the "
+        "analysed functions on an enumerated family of small concrete configurations and compares the outcome with reference semantics "
+        "written down in this module; collaborators (request message and its copy(), registered resources, link descriptions) are "
+        "symbolic objects supplied by the rule.  All sites are built through the program's own Site.__init__/add_resource, so the "
+        "clauses do not depend on how the tables are spelled or accessed.  (a) for every request path of length 0..4 that is "
+        "registered as a resource -- whatever else is registered as resource or sub-site at its prefixes, at () or at the path itself -- "
+        "the lookup returns exactly that resource and a copy of the request with an empty Uri-Path; (b) for every request path of "
+        "length 0..4 (with empty components at the end / in the middle) that is not registered as a resource and every subset of its "
+        "prefixes registered as sub-sites, the lookup returns the sub-site at the longest non-empty proper prefix with the remaining "
+        "components (a remainder of [\"\"] is handed on as []), raises KeyError if there is none, terminates, and modifies neither the "
+        "tables nor the request; (c) each routed entry point of Site (render, render_to_pipe, needs_blockwise_assembly, add_observation), evaluated "
+        "on registered and unregistered paths, answers an unknown path with error.NotFound (code 4.04) / its documented default without "
+        "touching a child, otherwise calls the corresponding method of the child found with the path-stripped copy and returns its result, "
+        "and lets a KeyError raised inside the child pass unchanged; the lookup itself lets only KeyError escape (exception-escape "
+        "analysis); further callers of the lookup (wrappers) are checked on their CFG; (d) "
+"the two tables are written only by __init__, add_resource and remove_resource (alias-aware "
+        "writer scan over the package); two fresh sites do not share registrations; along a sequence of add_resource/remove_resource "
+        "calls every following lookup and listing agrees with a reference model of the registrations (a change is visible to the next "
+        "request); a str path is rejected or registered, never dropped; removing an unknown path raises KeyError; lookup and listing "
+        "read no per-site state other than the two tables; (e) the message handed to the child is a copy of the request in which only "
+        "uri_path is replaced, and Message.get_request_uri evaluated on that copy -- after the exact-match arm, after the prefix arm, "
+        "and after two levels of nested sites -- reconstructs the path of the original request, while a message that was never "
+        "stripped yields its own Uri-Path; (f) the listing names exactly the registered resources whose description is not None under "
+        "'/' + '/'.join(path) with their description, the links of nested sites prefixed with the nested site's path, skips sub-sites "
+        "without a listing, and reflects later changes in this site and in nested sites; (g) the RFC 6690 filter, evaluated on a link "
+        "set and one filter item (possibly accompanied by items without '='), keeps exactly the links selected by the reference "
+        "filter: trailing '*' is a prefix match, anything else equality, rt/if/ct per space-separated token, href on the single "
+        "value, other attributes on any value, the item is split at its first '=', items without '=' are ignored.  Not decided: paths "
+        "longer than 4 components, behaviour with more than one filter item carrying '=', arbitrary interleavings at run time."
     ),
-    rule_text="dominance and must-pass rules on per-function CFGs, reaching definitions, a sequence normal form for the loop invariant, field ownership over the package, exception-escape analysis of the callers, structural patterns for the filter table",
+    rule_text="small-scope model checking with the checker's own evaluator against reference semantics (a, b, d, e, f, g); field ownership over the package with alias-aware writer scan (d); CFG dominance/must-pass and exception-escape analysis of the callers (c)",
 )
 
 SITE = "resource.Site."
+SITE_QN = "aiocoap.resource.Site"
+PC_QN = "aiocoap.resource.PathCapable"
+MSG_QN = "aiocoap.message.Message"
+WKC_QN = "aiocoap.resource.WKCResource"
 FIND = SITE + "_find_child_and_pathstripped_message"
 TABLES = ("_resources", "_subsites")
+HOST = "host.example"
 
 
 # ---------------------------------------------------------------------------
-# shared anchors
+# the world the analysed functions are evaluated in
 
 
-def _finder(ctx):
-    fi = ctx.prog.func(FIND)
-    p = params(fi)
-    ctx.need(len(p) == 1, "_find_child_and_pathstripped_message signature changed")
-    req = p[0]
-    ctx.need(not writes_to_name(fi.node, req), "the request parameter is re-bound")
-    # the request's own options are not modified by the lookup
-    for n in walk_no_nested(fi.node):
-        if isinstance(n, (ast.Assign, ast.AugAssign, ast.AnnAssign, ast.Delete)):
-            tgts = n.targets if isinstance(n, (ast.Assign, ast.Delete)) else [n.target]
-            for t in tgts:
-                c = chain(t) or ""
-                ctx.need(not c.startswith(req + ".opt"), "the lookup modifies the incoming request's options")
-    return fi, cfg_of(fi), req
+class RegistrationFailed(AnalysisError):
+    """a registration the rule needs for its configuration is rejected by add_resource (a fact about the analysed program, reported by C17.d)"""
 
 
-def _is_rp(fi, req, e, at):
-    """Does expression e denote the request's Uri-Path at CFG node `at`?"""
-    e = resolve_at(fi, e, at)
-    if isinstance(e, ast.Call) and chain(e.func) == "tuple" and len(e.args) == 1 and not e.keywords:
-        e = resolve_at(fi, e.args[0], at)  # the option view already is a tuple
-    return chain(e) == "%s.opt.uri_path" % req
+class World:
+    """Evaluator plus factories for the symbolic collaborators.  Reference models (trusted base, transcribed from
+    message.Message.copy and the option accessors): `request.opt.uri_path` is a tuple of str; `request.copy(**kw)` returns a new
+    message that shares everything with the original except its own option set, in which each keyword replaces the option of
+    that name (uri_path: converted to a tuple), and that does not carry over attributes set on the instance later
+    (_original_request_path)."""
+
+    def __init__(self, ctx, stubs=None):
+        self.ctx = ctx
+        self.prog = ctx.prog
+        self.it = Interp(ctx.prog, stubs=stubs)
+        self.site_cls = ctx.prog.cls("resource.Site")
+        for name in ("__init__", "add_resource", "remove_resource", "_find_child_and_pathstripped_message", "get_resources_as_linkheader"):
+            ctx.need(ctx.prog.lookup_method(SITE_QN, name) is not None, "Site.%s missing" % name)
+        self.counter = itertools.count(1)
+
+    # -- symbolic collaborators
+    def resource(self, label, description="absent", path_capable=False):
+        """a registered object: plain resource (optionally with get_link_description) or a foreign PathCapable object"""
+        o = Obj(cls=PC_QN if path_capable else None, label=label)
+        if description != "absent":
+            o.methods["get_link_description"] = Builtin("get_link_description", lambda it, a, k, d=description: (dict(d) if d is not None else None))
+        return o
+
+    def request(self, path, orig="absent", label="request"):
+        it = self.it
+        opt = Obj(label=label + ".opt", open_=True, attrs={"uri_path": tuple(path), "proxy_uri": None, "proxy_scheme": None, "uri_query": (),
+                                                              "uri_path_abbrev": None, "uri_host": None, "uri_port": None})
+        remote = Obj(label=label + ".remote", open_=True, attrs={"scheme": "coap", "hostinfo": HOST, "hostinfo_local": HOST, "is_multicast": False, "is_multicast_locally": False})
+        code = Obj(label=label + ".code", open_=True, methods={"is_response": Builtin("is_response", lambda it_, a, k: False), "is_request": Builtin("is_request", lambda it_, a, k: True)})
+        attrs = {"opt": opt, "remote": remote, "code": code}
+        try:
+            attrs["direction"] = it.ev(ast.parse("Direction.INCOMING", mode="eval").body, Env(None, self.prog.module("message")))
+        except (Raised, AnalysisError):
+            pass
+        return self._message(attrs, orig, label)
+
+    def _message(self, attrs, orig, label):
+        msg = Obj(cls=MSG_QN, label=label, open_=True, attrs=attrs, private_absent=True)
+        if orig != "absent":
+            msg.attrs["_original_request_path"] = orig
+        msg.copied_from = None
+        msg.copy_kwargs = None
+
+        def copy(it, a, k):
+            if a:
+                it.throw("TypeError", "copy() takes no positional arguments")
+            nopt = Obj(label="copy%d.opt" % next(self.counter), open_=True, attrs=dict(msg.attrs["opt"].attrs))
+            for name, v in k.items():
+                if name == "uri_path":
+                    v = tuple(it.iterate(v))
+                nopt.attrs[name] = v
+            nattrs = {n: v for n, v in msg.attrs.items() if n != "opt" and not n.startswith("_")}  # attributes set on the instance later are not copied
+            nattrs["opt"] = nopt
+            new = self._message(nattrs, "absent", "copy of " + label)
+            new.copied_from = msg
+            new.copy_kwargs = dict(k)
+            return new
+
+        msg.methods["copy"] = Builtin("copy", copy)
+        return msg
+
+    # -- the program's own API
+    def method(self, site, name):
+        return self.it.getattr_(site, name)
+
+    def new_site(self, label=None):
+        # a closed object (what is not set by the program's own code is absent), except for a logger, which reads as an unknown value
+        site = Obj(cls=SITE_QN, label=label or "site%d" % next(self.counter), open_names=("log", "logger", "_log", "_logger"))
+        out = self.it.run(self.method(site, "__init__"), [])
+        self.ctx.need(out[0] == "return", "Site() cannot be constructed in the evaluator: %s" % (out,))
+        return site
+
+    def add(self, site, path, res):
+        return self.it.run(self.method(site, "add_resource"), [path, res])
+
+    def remove(self, site, path):
+        return self.it.run(self.method(site, "remove_resource"), [path])
+
+    def lookup(self, site, request):
+        return self.it.run(self.method(site, "_find_child_and_pathstripped_message"), [request])
+
+    def listing(self, site):
+        return self.it.run(self.method(site, "get_resources_as_linkheader"), [])
+
+    def build(self, resources, subsites):
+        """a site with the given registrations, made through Site() and add_resource"""
+        site = self.new_site()
+        for p, r in list(resources.items()) + list(subsites.items()):
+            out = self.add(site, p, r)
+            if out != ("return", None):
+                raise RegistrationFailed("add_resource(%r, %r) %s" % (p, r, show_outcome(out)))
+        return site
+
+    def build_into(self, site, model, entries):
+        for p, obj in entries:
+            out = self.add(site, p, obj)
+            if out != ("return", None):
+                raise RegistrationFailed("add_resource(%r, %r) %s" % (p, obj, show_outcome(out)))
+            model.table(obj)[tuple(p)] = obj
 
 
-def _member_tests(fi, cfg, table):
-    """[(test node id, Compare expr, key expr, hit pseudo id, miss pseudo id)] for `K in self.<table>` / `K not in ...` branch conditions."""
+def show_outcome(out):
+    kind, v = out
+    if kind == "raise":
+        return "raises %s" % (v.cls or "?").split(".")[-1]
+    if kind == "diverged":
+        return "does not terminate"
+    return "returns %r" % (v,)
+
+
+# ---------------------------------------------------------------------------
+# reference semantics
+
+
+def spec_lookup(resources, subsites, path):
+    """('hit', child, remaining components) | ('miss',)"""
+    path = tuple(path)
+    if path in resources:
+        return ("hit", resources[path], ())
+    for i in range(len(path) - 1, 0, -1):
+        if path[:i] in subsites:
+            rem = path[i:]
+            if rem == ("",):
+                rem = ()
+            return ("hit", subsites[path[:i]], rem)
+    return ("miss",)
+
+
+def check_lookup(world, site, resources, subsites, path, orig="absent"):
+    """evaluate one lookup; -> (failures {family: text}, outcome, request)"""
+    req = world.request(path, orig)
+    before = snapshot(site)
+    out = world.lookup(site, req)
+    want = spec_lookup(resources, subsites, path)
+    fails = {}
+    if out[0] == "diverged":
+        fails["terminates"] = "does not terminate"
+        return fails, out, req
+    if want[0] == "miss":
+        if not (out[0] == "raise" and world.prog.is_subclass(out[1].cls or "?", "KeyError")):
+            fails["miss"] = "expected KeyError, %s" % show_outcome(out)
+    else:
+        _, child, rem = want
+        if out[0] != "return" or not (isinstance(out[1], (tuple, list)) and len(out[1]) == 2):
+            fails["child"] = "expected (%r, message with Uri-Path %r), %s" % (child, rem, show_outcome(out))
+        else:
+            got_child, msg = out[1]
+            if got_child is not child:
+                fails["child"] = "expected child %r, got %r" % (child, got_child)
+            if not (isinstance(msg, Obj) and msg.copied_from is req):
+                fails["copy"] = "the message handed on is not a copy of the request (%r)" % (msg,)
+            else:
+                if set(msg.copy_kwargs) != {"uri_path"}:
+                    fails["copy"] = "copy(%s): options other than uri_path are replaced" % ", ".join(sorted(msg.copy_kwargs))
+                got = msg.attrs["opt"].attrs.get("uri_path")
+                if got != rem:
+                    fails["remainder"] = "expected remaining Uri-Path %r, got %r" % (rem, got)
+    if snapshot(site) != before:
+        fails["pure"] = "the lookup modifies the site's registrations"
+    if req.attrs["opt"].attrs.get("uri_path") != tuple(path) or ("_original_request_path" in req.attrs) != (orig != "absent") or req.attrs.get("_original_request_path", None) is not (orig if orig != "absent" else None):
+        fails["pure"] = "the lookup modifies the incoming request"
+    return fails, out, req
+
+
+def snapshot(site):
+    """registrations of a site as far as they are held in dict/list/set attributes (identity of the registered objects)"""
     out = []
-    for n in cfg.nodes:
-        if n.kind == "test" and isinstance(n.ast, ast.Compare) and len(n.ast.ops) == 1 and isinstance(n.ast.ops[0], (ast.In, ast.NotIn)) \
-                and chain(n.ast.comparators[0]) == "self." + table and cfg.is_reachable(n.id):
-            t = [d for d, lab in cfg.succ[n.id] if lab == "T"]
-            f = [d for d, lab in cfg.succ[n.id] if lab == "F"]
-            if len(t) == 1 and len(f) == 1:
-                hit, miss = (t[0], f[0]) if isinstance(n.ast.ops[0], ast.In) else (f[0], t[0])
-                out.append((n.id, n.ast, n.ast.left, hit, miss))
-    return out
+    for k in sorted(site.attrs):
+        v = site.attrs[k]
+        if isinstance(v, dict):
+            out.append((k, tuple((kk, id(vv)) for kk, vv in v.items())))
+        elif isinstance(v, (list, set, tuple)):
+            out.append((k, tuple(id(x) if isinstance(x, Obj) else repr(x) for x in v)))
+    return tuple(out)
 
 
-def _table_accesses(fi, cfg, table):
-    return [(n, nid) for n in walk_no_nested(fi.node) if isinstance(n, ast.Attribute) and chain(n) == "self." + table for nid in cfg.locate(n)]
+PATHS = [(), ("a",), ("",), ("a", "b"), ("a", ""), ("a", "b", "c"), ("a", "b", ""), ("a", "", "c"), ("a", "", ""), ("a", "b", "c", "d"), ("a", "b", "c", "")]
 
 
-def _returns_from(cfg, src):
-    return [n for n in sorted(cfg.reach({src}, include_src=True)) if cfg.nodes[n].kind == "return"]
+def prefixes(path):
+    return [tuple(path[:i]) for i in range(len(path) + 1)]
+
+
+def subsets(items):
+    for n in range(len(items) + 1):
+        for c in itertools.combinations(items, n):
+            yield c
+
+
+def describe(path, rkeys, skeys):
+    return "request path %r, resources at %s, sub-sites at %s" % (tuple(path), sorted(rkeys) or "-", sorted(skeys) or "-")
+
+
+def lookup_family(ctx, world, exact):
+    """run the lookup over the configuration family; -> ({family: [failure text]}, number of evaluations)"""
+    fails = {}
+    n = 0
+    for path in PATHS:
+        pre = prefixes(path)
+        if exact:
+            rsets = [(path,)] + ([(path, pre[1])] if len(pre) > 2 else []) + ([(path, pre[-2])] if len(pre) > 3 else [])
+        else:
+            proper = [p for p in pre if p != path]
+            rsets = [()] + ([(proper[0],)] if proper else []) + ([(proper[-1],)] if len(proper) > 1 else []) + ([tuple(proper)] if len(proper) > 2 else [])
+        for rkeys in rsets:
+            for skeys in subsets(pre):
+                resources = {k: world.resource("resource@%s" % "/".join(k)) for k in rkeys}
+                subsites = {k: world.resource("subsite@%s" % "/".join(k), path_capable=True) for k in skeys}
+                site = world.build(resources, subsites)
+                f, out, req = check_lookup(world, site, resources, subsites, path)
+                n += 1
+                for fam, text in f.items():
+                    fails.setdefault(fam, []).append("%s: %s" % (describe(path, rkeys, skeys), text))
+                if len(fails.get("terminates", ())) >= 3:
+                    return fails, n  # every further configuration costs the full step budget
+    return fails, n
+
+
+_FAMILIES = {}
+LOOKUP_FAMILIES = ("child", "remainder", "miss", "terminates", "pure")
+
+
+def families(ctx):
+    """The two lookup families, evaluated once per analysed program, and a diagnosis of who is to blame when they disagree with
+    the reference semantics.  Registrations are made through add_resource and observed through the lookup, so a disagreement can
+    come from either; the listing is a second, independent observer of the registrations: if it disagrees with the reference
+    model as well (or add_resource fails outright), the registration is at fault and is reported by C17.d, otherwise the lookup
+    (C17.a/b)."""
+    key = id(ctx.prog)
+    if key not in _FAMILIES:
+        _FAMILIES.clear()
+        world = World(ctx)
+        res = {"prog": ctx.prog, "exact": ({}, 0), "prefix": ({}, 0), "diagnosis": "ok", "why": None}
+        try:
+            res["exact"] = lookup_family(ctx, world, exact=True)
+            res["prefix"] = lookup_family(ctx, world, exact=False)
+        except RegistrationFailed as ex:
+            res["diagnosis"], res["why"] = "registration", str(ex)
+        if res["diagnosis"] == "ok" and any(f.get(k) for f in (res["exact"][0], res["prefix"][0]) for k in LOOKUP_FAMILIES):
+            res["diagnosis"] = "lookup"
+            try:
+                inner, inner_model = world.new_site(), Model()
+                leaf = world.resource("leaf", {})
+                world.build_into(inner, inner_model, [(("x",), leaf)])
+                site, model = world.new_site(), Model()
+                foreign = world.resource("foreign PathCapable", path_capable=True)
+                world.build_into(site, model, [(("a",), world.resource("a", {"rt": "x"})), (("b", "c"), world.resource("bc")), (("s",), inner), (("t",), foreign)])
+                ref_inner = spec_listing(inner_model, {id(leaf): {}}, {})
+                msg = compare_listing(world, site, model, {id(inner): ref_inner, id(foreign): None}) or compare_listing(world, world.new_site(), Model())
+            except RegistrationFailed as ex:
+                msg = str(ex)
+            if msg:
+                res["diagnosis"], res["why"] = "registration", msg
+        _FAMILIES[key] = res
+    return _FAMILIES[key]
+
+
+def registration_refuted(ctx, what):
+    fam = families(ctx)
+    if fam["diagnosis"] == "registration":
+        ctx.note("%s not evaluated: registrations made through Site()/add_resource are seen consistently neither by the lookup nor by the listing (reported by C17.d): %s" % (what, fam["why"]))
+        return True
+    return False
+
+
+def lookup_refuted(ctx, what):
+    """Clauses c, d, e observe registrations through the lookup; when the lookup (C17.a/b) or the registration (C17.d) is already
+    refuted, what they would observe says nothing about the functions they are about."""
+    fam = families(ctx)
+    if fam["diagnosis"] == "lookup":
+        ctx.note("%s not evaluated: the lookup itself disagrees with the reference semantics (reported by C17.a / C17.b)" % what)
+        return True
+    return registration_refuted(ctx, what)
+
+
+def report(ctx, fi, fails, n, families, desc, construct):
+    bad = [t for fam in families for t in fails.get(fam, [])]
+    ctx.ob(desc, not bad, fi, fi.node, construct=construct,
+           detail=("%d of the evaluated configurations disagree with the reference semantics, e.g. %s" % (len(bad), bad[0])) if bad else "%d configurations evaluated" % n)
 
 
 # ---------------------------------------------------------------------------
 # C17.a
 
 
-@R.clause("C17.a", "the exact-match test on _resources dominates the prefix search and returns on success")
+@R.clause("C17.a", "a request path registered as a resource is answered by exactly that resource, before and regardless of any sub-site prefix")
 def a(ctx):
-    fi, cfg, req = _finder(ctx)
-    tests = [t for t in _member_tests(fi, cfg, "_resources") if _is_rp(fi, req, t[2], t[0])]
-    ctx.floor("exact-match tests `<request path> in self._resources`", len(tests), 1)
-    ctx.need(len(tests) == 1, "more than one exact-match test on _resources: outside the rule's vocabulary")
-    tid, cmp_, key, hit, miss = tests[0]
-    gs = cfg.guards(tid)
-    on_path = [(e, pol) for e, pol, _ in gs if any(_is_rp(fi, req, x, tid) for x in ast.walk(e) if isinstance(x, (ast.Name, ast.Attribute)))]
-    ctx.need(len(on_path) == len(gs), "the exact-match test is preceded by a condition the rule cannot interpret: %s" % [stmt_text(e, 60) for e, _, _ in gs])
-    ctx.ob("the exact-match test is evaluated for every request path (no earlier condition on the path, e.g. on its emptiness, skips it)", not on_path, fi, cmp_,
-           detail=("evaluated only under: %s" % [(stmt_text(e, 60), pol) for e, pol in on_path]) if on_path else None)
-    subs = _table_accesses(fi, cfg, "_subsites")
-    ctx.floor("accesses to _subsites in the lookup", len(subs), 2)
-    for n, nid in subs:
-        ctx.ob("_subsites is consulted only after the exact match on _resources failed", cfg.dominates(miss, nid), fi, cfg.nodes[nid].ast if cfg.nodes[nid].ast is not None else n,
-               detail="access `%s`" % stmt_text(cfg.parent.get(id(n), n), 60))
-    rets = _returns_from(cfg, hit)
-    ctx.ob("an exact match always returns (never falls through into the prefix search)", bool(rets) and side_rejects(cfg, hit) is False and cfg.must_pass(hit, rets) and not any(nid in cfg.reach({hit}) for _, nid in subs), fi, cmp_)
-    for rn in rets:
-        r = cfg.nodes[rn].ast
-        v = r.value
-        ok = isinstance(v, ast.Tuple) and len(v.elts) == 2
-        if ok:
-            child = resolve_at(fi, v.elts[0], rn)
-            ok = isinstance(child, ast.Subscript) and chain(child.value) == "self._resources" and _is_rp(fi, req, child.slice, rn)
-        ctx.ob("on an exact match the resource registered under exactly the request path is returned", ok, fi, r)
+    fi = ctx.prog.func(FIND)
+    if registration_refuted(ctx, "the exact-match lookups"):
+        return
+    fails, n = families(ctx)["exact"]
+    report(ctx, fi, fails, n, ("child", "miss", "terminates"),
+           "a request whose path is registered in _resources is answered by the resource registered under exactly that path -- also for the empty path, and whatever is registered as sub-site at its prefixes (the exact match is tried for every request and wins over the prefix search)",
+           "lookup: exact match")
+    report(ctx, fi, fails, n, ("remainder",), "on an exact match the resource receives the request with an empty Uri-Path", "lookup: exact match leaves no path")
+    report(ctx, fi, fails, n, ("pure",), "an exact match modifies neither the registrations nor the incoming request", "lookup: exact match has no side effects")
 
 
 # ---------------------------------------------------------------------------
-# C17.b  sequence normal form
+# C17.b
 
 
-def _slice_parts(e):
-    """(base, lower, upper) of X[l:u] with constant-or-name bounds, else None."""
-    if isinstance(e, ast.Subscript) and isinstance(e.slice, ast.Slice) and e.slice.step is None:
-        return e.value, e.slice.lower, e.slice.upper
-    return None
-
-
-def _cint(e):
-    try:
-        v = norm.consteval(e)
-    except NormError:
-        return None
-    return v if isinstance(v, int) and not isinstance(v, bool) else None
-
-
-def _seq_nf(e, key):
-    """Sequence normal form: a list of segments.  ('all', X) the whole sequence X,
-    ('init', X) X without its last element, ('last', X) the one-element sequence holding X[-1],
-    ('pre', X, i) X[:i], ('post', X, i) X[i:], ('opaque', dump).  `key(expr)` canonicalises a base expression to a string.
-    Adjacent init/last and pre/post of the same base merge into 'all'."""
-    def seg(x):
-        if isinstance(x, ast.Call) and chain(x.func) in ("list", "tuple") and len(x.args) == 1 and not x.keywords:
-            return seg(x.args[0])
-        if isinstance(x, ast.BinOp) and isinstance(x.op, ast.Add):
-            return seg(x.left) + seg(x.right)
-        if isinstance(x, (ast.List, ast.Tuple)):
-            out = []
-            for el in x.elts:
-                if isinstance(el, ast.Subscript) and not isinstance(el.slice, ast.Slice) and _cint(el.slice) == -1:
-                    out.append(("last", key(el.value)))
-                elif isinstance(el, ast.Starred):
-                    out.extend(seg(el.value))
-                else:
-                    out.append(("opaque", dump(el)))
-            return out
-        sp = _slice_parts(x)
-        if sp is not None:
-            base, lo, up = sp
-            if lo is None and up is not None and _cint(up) == -1:
-                return [("init", key(base))]
-            if lo is None and up is not None:
-                return [("pre", key(base), dump(up))]
-            if up is None and lo is not None:
-                return [("post", key(base), dump(lo))]
-            if lo is None and up is None:
-                return [("all", key(base))]
-            return [("opaque", dump(x))]
-        k = key(x)
-        if k is not None:
-            return [("all", k)]
-        return [("opaque", dump(x))]
-
-    segs = seg(e)
-    out = []
-    for s in segs:
-        if out and out[-1][0] == "init" and s[0] == "last" and out[-1][1] == s[1]:
-            out[-1] = ("all", s[1])
-        elif out and out[-1][0] == "pre" and s[0] == "post" and out[-1][1:] == s[1:]:
-            out[-1] = ("all", s[1])
-        else:
-            out.append(s)
-    return out
-
-
-def _concat(a, b, key):
-    return _seq_nf(ast.BinOp(left=a, op=ast.Add(), right=b), key)
-
-
-def _strip_arm(ctx, fi, cfg, req, hit, table, cand_ok):
-    """Checks common to both idioms on the hit side of `cand in self._subsites`:
-    returns (self._subsites[cand], request.copy(uri_path=R)); yields (return node id, R expr, copy call)."""
-    rets = _returns_from(cfg, hit)
-    out = []
-    ctx.ob("the first candidate found in _subsites ends the search with a return", bool(rets) and cfg.must_pass(hit, rets), fi, cfg.nodes[hit].ast)
-    for rn in rets:
-        r = cfg.nodes[rn].ast
-        v = r.value
-        ok = isinstance(v, ast.Tuple) and len(v.elts) == 2
-        child = resolve_at(fi, v.elts[0], rn) if ok else None
-        ok = ok and isinstance(child, ast.Subscript) and chain(child.value) == "self." + table and cand_ok(child.slice, rn)
-        ctx.ob("the sub-site returned is the one registered under the candidate prefix that was tested", bool(ok), fi, r)
-        if not (isinstance(v, ast.Tuple) and len(v.elts) == 2):
-            continue
-        cp = v.elts[1]
-        cpn = rn
-        if isinstance(cp, ast.Name):
-            ds = reaching_defs(fi, cp.id, rn)
-            ctx.need(len(ds) == 1 and ds[0] != PARAM, "the stripped message returned from the prefix search has no unique definition")
-            dv = def_value(ds[0], cp.id)
-            ctx.need(dv[0] == "expr", "the stripped message is not bound by a plain assignment")
-            cpn = cfg.loc1(ds[0])
-            cp = dv[1]
-        m = match("%s.copy($**kw)" % req, cp)
-        kw = {k.arg: k.value for k in (m["kw"] if m is not None else []) if k.arg}
-        okc = m is not None and not cp.args and set(kw) == {"uri_path"}
-        ctx.ob("the sub-site receives a copy of the request in which only uri_path is replaced", okc, fi, r, detail="message: %s" % stmt_text(cp, 80))
-        if okc:
-            out.append((rn, cpn, kw["uri_path"], cp))
-    return out
-
-
-def _empty_mapping(ctx, fi, cfg, rname, use_nid, anchor, elem_type):
-    """At `use_nid` the remainder local `rname` is [] whenever it would be [""]:
-    a definition `rname = []` guarded by `rname == [""]` (same sequence type as the remainder) through which every path from the
-    guard's true outcome to the use passes."""
-    ok, why = False, "no `if %s == [\"\"]: %s = []` before the copy" % (rname, rname)
-    for w in reaching_defs(fi, rname, use_nid):
-        if w == PARAM:
-            continue
-        dv = def_value(w, rname)
-        if dv[0] != "expr" or not (isinstance(dv[1], (ast.List, ast.Tuple)) and not dv[1].elts) and not (isinstance(dv[1], ast.Call) and chain(dv[1].func) in ("list", "tuple") and not dv[1].args):
-            continue
-        wn = cfg.loc1(w)
-        for e, pol, pid in cfg.guards(wn):
-            if not (isinstance(e, ast.Compare) and len(e.ops) == 1 and isinstance(e.ops[0], (ast.Eq, ast.NotEq))):
-                continue
-            l, r = e.left, e.comparators[0]
-            if isinstance(r, ast.Name):
-                l, r = r, l
-            if not (isinstance(l, ast.Name) and l.id == rname):
-                continue
-            try:
-                val = norm.consteval(r)
-            except NormError:
-                continue
-            if pol != isinstance(e.ops[0], ast.Eq):
-                continue
-            if val not in ([""], ("",)):
-                why = "the remainder is compared with %r" % (val,)
-                continue
-            if type(val) is not elem_type:
-                why = "the remainder is a %s but is compared with the %s %r (never equal)" % (elem_type.__name__, type(val).__name__, val)
-                continue
-            if use_nid in cfg.reach({pid}, avoid={wn}):
-                why = "the copy is reachable from the [\"\"] outcome without the reset"
-                continue
-            ok, why = True, "reset `%s` under `%s`" % (stmt_text(w, 40), stmt_text(e, 40))
-    ctx.ob("a remainder of [\"\"] (request for <prefix>/) is handed to the sub-site as [] so that it reaches the sub-site's root resource", ok, fi, anchor, detail=why)
-
-
-def _exhaustion(ctx, fi, cfg, side, anchor):
-    rs = raises_from(cfg, side)
-    classes = sorted({raised_class(ctx.prog, fi, r) or "?" for r in rs})
-    ctx.ob("when no prefix is a registered sub-site the lookup raises KeyError", side_rejects(cfg, side) and bool(rs) and all(c != "?" and ctx.prog.is_subclass(c, "KeyError") for c in classes), fi, anchor,
-           detail="raises %s" % classes)
-
-
-def _while_idiom(ctx, fi, cfg, req, loop):
-    N = Normalizer()
-    test = loop.test
-    cand = None
-    if isinstance(test, ast.Name):
-        cand = test.id
-    else:
-        for nm in names_in(test):
-            for ref in ("len(%s) > 0", "len(%s) != 0", "%s != ()", "%s != []"):
-                try:
-                    if N.cmp(test) == N.cmp(ast.parse(ref % nm, mode="eval").body):
-                        cand = nm
-                except NormError:
-                    pass
-    if cand is None and isinstance(test, ast.Compare) and len(names_in(test)) == 2 and "len" in names_in(test):
-        # a recognisable condition on the candidate's length that is not its non-emptiness
-        ctx.ob("the prefix search continues exactly while the candidate is non-empty (down to one-component prefixes)", False, fi, test)
-        return
-    ctx.need(cand is not None, "prefix search: the while condition is not the non-emptiness of one local (accepted idioms: `while p:` slicing loop, `for i in range(len(p)-1, 0, -1)`)")
-    tn = [n for n in cfg.locate(test) if cfg.nodes[n].kind == "test"]
-    ctx.need(len(tn) == 1, "prefix search: loop test has no unique CFG node")
-    tn = tn[0]
-    loopT = [d for d, lab in cfg.succ[tn] if lab == "T"][0]
-    loopF = [d for d, lab in cfg.succ[tn] if lab == "F"][0]
-    head = cfg.loc1(loop)
-    key_rp = "%s.opt.uri_path" % req
-
-    def key(x):
-        c = chain(resolve_at(fi, x, tn)) if isinstance(x, ast.Name) and x.id not in (cand,) else chain(x)
-        return c
-
-    # --- candidate: initial value and updates
-    defs = [w for w in reaching_defs(fi, cand, tn)]
-    ctx.need(PARAM not in defs, "prefix search: the candidate may be unbound at the loop")
-    inits = [w for w in defs if not contains(loop, w)]
-    updates = [w for w in writes_to_name(fi.node, cand) if contains(loop, w)]
-    ctx.need(len(inits) == 1 and updates, "prefix search: expected one initialisation before the loop and an update inside it")
-    iv = def_value(inits[0], cand)
-    ctx.need(iv[0] == "expr", "prefix search: candidate initialised by something other than an assignment")
-    init_nf = _seq_nf(iv[1], key)
-    ctx.ob("the first candidate is the request path without its last element (the longest proper prefix)", init_nf == [("init", key_rp)], fi, inits[0], detail="normal form %s" % (init_nf,))
-    un = []
-    for u in updates:
-        uv = def_value(u, cand)
-        ok = uv[0] == "expr" and _seq_nf(uv[1], key) == [("init", cand)]
-        ctx.ob("every update of the candidate removes exactly its last element", ok, fi, u)
-        un.extend(cfg.locate(u))
-    once = cfg.must_pass(loopT, un, to=head) and not any(set(cfg.reach({u}, avoid={head})) & set(un) for u in un)
-    ctx.ob("the candidate is shortened exactly once per iteration (no prefix length is skipped, the loop makes progress)", once, fi, updates[0])
-    # --- membership test
-    mts = [t for t in _member_tests(fi, cfg, "_subsites") if contains(loop, t[1])]
-    ctx.need(len(mts) == 1, "prefix search: expected exactly one `candidate in self._subsites` test inside the loop")
-    mid, mcmp, mkey, hit, miss = mts[0]
-    ctx.ob("the membership test in _subsites is made on the current candidate", isinstance(mkey, ast.Name) and mkey.id == cand, fi, mcmp)
-    ctx.ob("every candidate is tested before it is shortened", cfg.must_pass(loopT, [mid], to=None) and all(cfg.must_pass(loopT, [mid], to=u) for u in un) and not any(mid in cfg.reach({u}, avoid={head}) for u in un), fi, mcmp)
-    ctx.ob("finding a sub-site leaves the loop (the longest registered prefix wins)", head not in cfg.reach({hit}) and not any(u in cfg.reach({hit}) for u in un), fi, mcmp)
-
-    def cand_ok(e, at):
-        return isinstance(e, ast.Name) and e.id == cand and not any(u in cfg.reach({hit}, avoid={at}) and at in cfg.reach({u}) for u in un)
-
-    arms = _strip_arm(ctx, fi, cfg, req, hit, "_subsites", cand_ok)
-    ctx.need(arms, "prefix search: no stripped copy is returned on the hit side")
-    for rn, cpn, R_, cp in arms:
-        ctx.need(isinstance(R_, ast.Name), "prefix search: uri_path of the stripped copy is not a local (remainder) variable")
-        rname = R_.id
-        # definitions and in-place prepends of the remainder
-        rinits = [w for w in writes_to_name(fi.node, rname) if not contains(loop, w)]
-        if len(rinits) > 1:
-            # a second pre-loop definition: e.g. the `[""] -> []` normalisation hoisted out of the loop, where it
-            # sees only the last component instead of the complete remainder
-            extra = [w for w in rinits[1:] if guard_exprs(cfg, cfg.loc1(w))]
-            if extra and len(extra) == len(rinits) - 1:
-                ctx.ob("the remainder is normalised ([\"\"] -> []) only once it is complete, on the side where a sub-site was found", False, fi, extra[0],
-                       detail="conditional re-definition of the remainder before the search loop")
-                return
-        ctx.need(len(rinits) == 1, "prefix search: expected one initialisation of the remainder before the loop")
-        rv = def_value(rinits[0], rname)
-        ctx.need(rv[0] == "expr" and isinstance(rv[1], (ast.List, ast.Tuple)), "prefix search: remainder is not initialised with a list/tuple display")
-        rtype = list if isinstance(rv[1], ast.List) else tuple
-        preps = []  # (cfg node, new value of the remainder as an expression over cand and rname)
-        for n in walk_no_nested(loop):
-            m = match("%s.insert($i, $x)" % rname, n) if isinstance(n, ast.Call) else None
-            if m is not None:
-                ctx.need(_cint(m["i"]) == 0, "prefix search: remainder.insert at a position other than 0")
-                newv = ast.BinOp(left=ast.List(elts=[m["x"]], ctx=ast.Load()), op=ast.Add(), right=ast.Name(id=rname, ctx=ast.Load()))
-                preps.append((cfg.loc1(n), newv, n))
-        for w in writes_to_name(fi.node, rname):
-            if contains(loop, w):
-                dv = def_value(w, rname)
-                if dv[0] == "expr" and isinstance(dv[1], (ast.List, ast.Tuple)) and not dv[1].elts:
-                    continue  # the [""] -> [] reset, checked below
-                if dv[0] == "aug":
-                    ctx.need(False, "prefix search: augmented assignment to the remainder is outside the rule's vocabulary")
-                ctx.need(dv[0] == "expr", "prefix search: remainder re-bound by something other than an assignment")
-                preps.append((cfg.loc1(w), dv[1], w))
-        for k in ("append", "extend", "pop", "remove", "clear", "reverse", "sort"):
-            ctx.need(not list(find("%s.%s($*a)" % (rname, k), loop)), "prefix search: remainder mutated by .%s(): outside the rule's vocabulary" % k)
-        ctx.need(preps, "prefix search: the remainder is never extended inside the loop")
-        pn = [p[0] for p in preps]
-        # invariant, initially: candidate + remainder == request path
-        inv0 = _concat(iv[1], rv[1], key)
-        ctx.ob("loop invariant holds initially: candidate + remainder == request path", inv0 == [("all", key_rp)], fi, rinits[0], detail="normal form %s" % (inv0,))
-        # the last element is only taken from a non-empty path
-        guarded = any(pol and _is_rp(fi, req, e, cfg.loc1(rinits[0])) for e, pol in guard_exprs(cfg, cfg.loc1(rinits[0])))
-        ctx.ob("an empty request path is answered (KeyError) before its last element is taken", guarded, fi, rinits[0])
-        for nid, newv, node in preps:
-            # preserved by one iteration: (cand[:-1]) + new remainder == cand + remainder
-            invs = _concat(ast.Subscript(value=ast.Name(id=cand, ctx=ast.Load()), slice=ast.Slice(lower=None, upper=ast.UnaryOp(op=ast.USub(), operand=ast.Constant(value=1)), step=None), ctx=ast.Load()), newv, lambda x: chain(x))
-            ctx.ob("loop invariant is preserved: the element removed from the candidate is prepended to the remainder", invs == [("all", cand), ("all", rname)], fi, node, detail="normal form %s" % (invs,))
-            ctx.ob("the prepended element is read from the candidate before it is shortened, once per iteration",
-                   all(cfg.must_pass(loopT, [nid], to=u) for u in un) and not any(nid in cfg.reach({u}, avoid={head}) for u in un) and not (set(cfg.reach({nid}, avoid={head})) & (set(pn) - {nid}))
-                   and cfg.must_pass(loopT, pn, to=head), fi, node)
-        ctx.ob("the hit side neither shortens the candidate nor extends the remainder before returning", not (set(cfg.reach({hit})) & (set(pn) | set(un))), fi, mcmp)
-        _empty_mapping(ctx, fi, cfg, rname, cpn, cp, rtype)
-    _exhaustion(ctx, fi, cfg, loopF, loop.test)
-
-
-def _for_idiom(ctx, fi, cfg, req, loop):
-    N = Normalizer()
-    ctx.need(isinstance(loop.target, ast.Name) and isinstance(loop.iter, ast.Call) and chain(loop.iter.func) == "range" and 1 <= len(loop.iter.args) <= 3 and not loop.iter.keywords,
-             "prefix search: the for loop is not `for i in range(...)` (accepted idioms: `while p:` slicing loop, `for i in range(len(p)-1, 0, -1)`)")
-    i = loop.target.id
-    ctx.need(not [w for w in writes_to_name(fi.node, i) if w is not loop], "prefix search: the loop index is re-bound")
-    hn = cfg.loc1(loop)
-    # range(stop) / range(start, stop) are ascending ranges: interpreted (and refuted below) rather than refused
-    ra = list(loop.iter.args)
-    if len(ra) == 1:
-        ra = [ast.Constant(value=0), ra[0], ast.Constant(value=1)]
-    elif len(ra) == 2:
-        ra = [ra[0], ra[1], ast.Constant(value=1)]
-    start, stop, step = ra
-    # which sequence is measured
-    lens = [n for a_ in (start, stop) for n in ast.walk(a_) if isinstance(n, ast.Call) and chain(n.func) == "len" and len(n.args) == 1]
-    ctx.need(len(lens) == 1, "prefix search: the range bounds do not mention exactly one len(..)")
-    base = lens[0].args[0]
-    ctx.need(_is_rp(fi, req, base, hn), "prefix search: the range is not over the request path")
-    try:
-        got_start = N.poly(start)
-        ref_start = N.poly(ast.parse("len(%s) - 1" % ast.unparse(base), mode="eval").body)
-        ok_start = got_start == ref_start
-        ok_stop = N.poly(stop) == Poly.const(0)
-        ok_step = N.poly(step) == Poly.const(-1)
-    except NormError:
-        ok_start = ok_stop = ok_step = False
-    ctx.ob("prefix lengths start at len(path) - 1 (the longest proper prefix)", ok_start, fi, loop.iter, detail="start = %s" % stmt_text(start))
-    ctx.ob("prefix lengths end at 1 (range stop 0)", ok_stop, fi, loop.iter, detail="stop = %s" % stmt_text(stop))
-    ctx.ob("prefix lengths decrease by one (longest first, none skipped)", ok_step, fi, loop.iter, detail="step = %s" % stmt_text(step))
-    loopT = [d for d, lab in cfg.succ[hn] if lab == "T"][0]
-    loopF = [d for d, lab in cfg.succ[hn] if lab == "F"][0]
-    key_rp = "%s.opt.uri_path" % req
-
-    def key(x):
-        return chain(resolve_at(fi, x, hn)) if isinstance(x, ast.Name) else chain(x)
-
-    def is_prefix(e, at):
-        e = resolve_at(fi, e, at)
-        return _seq_nf(e, key) == [("pre", key_rp, dump(ast.Name(id=i, ctx=ast.Load())))]
-
-    mts = [t for t in _member_tests(fi, cfg, "_subsites") if contains(loop, t[1])]
-    ctx.need(len(mts) == 1, "prefix search: expected exactly one `candidate in self._subsites` test inside the loop")
-    mid, mcmp, mkey, hit, miss = mts[0]
-    ctx.ob("the membership test in _subsites is made on the prefix of the current length", is_prefix(mkey, mid), fi, mcmp)
-    ctx.ob("every prefix length is tested", cfg.must_pass(loopT, [mid], to=hn), fi, mcmp)
-    ctx.ob("finding a sub-site leaves the loop (the longest registered prefix wins)", hn not in cfg.reach({hit}), fi, mcmp)
-    arms = _strip_arm(ctx, fi, cfg, req, hit, "_subsites", is_prefix)
-    ctx.need(arms, "prefix search: no stripped copy is returned on the hit side")
-    for rn, cpn, R_, cp in arms:
-        if isinstance(R_, ast.Name):
-            rname = R_.id
-            ds = [w for w in reaching_defs(fi, rname, cpn) if w != PARAM]
-            mains = []
-            for w in ds:
-                dv = def_value(w, rname)
-                ctx.need(dv[0] == "expr", "prefix search: remainder bound by something other than an assignment")
-                if isinstance(dv[1], (ast.List, ast.Tuple)) and not dv[1].elts:
-                    continue
-                mains.append((w, dv[1]))
-            ctx.need(len(mains) == 1, "prefix search: remainder has no unique main definition")
-            w, val = mains[0]
-            nf = _seq_nf(val, key)
-            ctx.ob("the remainder is the request path from the prefix length on (candidate + remainder == request path)", nf == [("post", key_rp, dump(ast.Name(id=i, ctx=ast.Load())))], fi, w, detail="normal form %s" % (nf,))
-            rtype = list if (isinstance(val, ast.Call) and chain(val.func) == "list") or isinstance(val, ast.List) else tuple
-            if rtype is tuple:
-                # slices of the Uri-Path view are tuples: premise read from options._items_view
-                g = ctx.prog.func("options._items_view.<locals>._getter")
-                rts = [n for n in walk_no_nested(g.node) if isinstance(n, ast.Return)]
-                ctx.need(len(rts) == 1 and isinstance(rts[0].value, ast.Call) and chain(rts[0].value.func) == "tuple", "the repeatable-option view no longer returns a tuple")
-            _empty_mapping(ctx, fi, cfg, rname, cpn, cp, rtype)
-        else:
-            nf = _seq_nf(R_, key)
-            ctx.ob("the remainder is the request path from the prefix length on (candidate + remainder == request path)", nf == [("post", key_rp, dump(ast.Name(id=i, ctx=ast.Load())))], fi, cp, detail="normal form %s" % (nf,))
-            ctx.ob("a remainder of [\"\"] (request for <prefix>/) is handed to the sub-site as [] so that it reaches the sub-site's root resource", False, fi, cp, detail="the remainder is passed on unconditionally")
-    _exhaustion(ctx, fi, cfg, loopF, loop.iter)
-
-
-@R.clause("C17.b", "longest proper prefix first: candidate + remainder == request path is a loop invariant; first member of _subsites wins; [\"\"] -> []; exhaustion raises KeyError")
+@R.clause("C17.b", "longest non-empty proper prefix first: the sub-site registered there gets the remaining components; [\"\"] -> []; no registered prefix raises KeyError")
 def b(ctx):
-    fi, cfg, req = _finder(ctx)
-    loops = [n for n in walk_no_nested(fi.node) if isinstance(n, (ast.While, ast.For, ast.AsyncFor))]
-    comps = [n for n in walk_no_nested(fi.node) if isinstance(n, (ast.ListComp, ast.GeneratorExp, ast.SetComp, ast.DictComp))]
-    ctx.need(len(loops) == 1 and not comps, "prefix search: expected exactly one loop and no comprehension in the lookup (accepted idioms: `while p:` slicing loop, `for i in range(len(p)-1, 0, -1)`)")
-    ctx.need(not any(isinstance(n, (ast.Await, ast.Yield, ast.YieldFrom)) for n in walk_no_nested(fi.node)) and is_plain_sync(fi), "the lookup is not a plain synchronous function")
-    loop = loops[0]
-    ctx.need(not loop.orelse, "prefix search: loop with an else clause is outside the rule's vocabulary")
-    if isinstance(loop, ast.While):
-        _while_idiom(ctx, fi, cfg, req, loop)
-    else:
-        _for_idiom(ctx, fi, cfg, req, loop)
-    # every normal exit is a return of a (child, message) pair
-    preds = [p for p, lab in cfg.pred[cfg.exit]]
-    okp = all(cfg.nodes[p].kind == "return" and isinstance(cfg.nodes[p].ast.value, ast.Tuple) and len(cfg.nodes[p].ast.value.elts) == 2 for p in preds if cfg.is_reachable(p))
-    ctx.ob("the lookup never falls off its end: it returns a (child, stripped message) pair or raises", okp and bool(preds), fi, fi.node, construct="_find_child_and_pathstripped_message exits")
+    fi = ctx.prog.func(FIND)
+    ctx.need(is_plain_sync(fi), "the lookup is not a plain synchronous function")
+    if registration_refuted(ctx, "the prefix lookups"):
+        return
+    fails, n = families(ctx)["prefix"]
+    trailing = [t for t in fails.get("remainder", []) if "expected remaining Uri-Path ()" in t]
+    other = [t for t in fails.get("remainder", []) if "expected remaining Uri-Path ()" not in t]
+    report(ctx, fi, fails, n, ("child",),
+           "a request whose path is not registered as a resource is handed to the sub-site registered at the longest non-empty proper prefix of the path (longest first, none skipped, the first hit ends the search)",
+           "lookup: longest prefix wins")
+    report(ctx, fi, {"remainder": other}, n, ("remainder",),
+           "the sub-site receives exactly the components after the matched prefix (prefix + remainder == request path)", "lookup: remainder")
+    report(ctx, fi, {"remainder": trailing}, n, ("remainder",),
+           "a remainder of [\"\"] (request for <prefix>/) is handed to the sub-site as [] so that it reaches the sub-site's root resource, and only a complete remainder is normalised", "lookup: trailing slash")
+    report(ctx, fi, fails, n, ("miss",),
+           "when no non-empty proper prefix is a registered sub-site (also: empty and one-component paths, sub-sites registered at () or at the full path) the lookup raises KeyError", "lookup: exhaustion")
+    report(ctx, fi, fails, n, ("terminates",), "the prefix search terminates", "lookup: termination")
+    report(ctx, fi, fails, n, ("pure",), "the lookup modifies neither the registrations nor the incoming request", "lookup: no side effects")
 
 
 # ---------------------------------------------------------------------------
 # C17.c
 
-CALLER_TABLE = {
-    # caller -> how the documented default for "no such resource" looks
-    "resource.Site.render": ("raise", "aiocoap.error.NotFound"),
-    "resource.Site.render_to_pipe": ("raise", "aiocoap.error.NotFound"),
-    "resource.Site.needs_blockwise_assembly": ("return", True),
-    "resource.Site.add_observation": ("return", None),
+# entry points of Site that route a request: (arguments after the request/pipe, what "no such resource" must give, child method delegated to)
+ENTRY_POINTS = {
+    "render": ((), ("raise", "aiocoap.error.NotFound"), "render"),
+    "render_to_pipe": ((), ("raise", "aiocoap.error.NotFound"), "render_to_pipe"),
+    "needs_blockwise_assembly": ((), ("return", True), "needs_blockwise_assembly"),
+    "add_observation": (("serverobservation",), ("return", None), "add_observation"),
 }
 
 
-@R.clause("C17.c", "every caller of the lookup maps its KeyError to 4.04 / the documented default")
+def static_caller_check(ctx, EA, ffi, fi, call):
+    """a caller of the lookup that is not one of the four routed entry points (e.g. a helper wrapping the lookup):
+    its handler maps the KeyError to NotFound or returns, and covers nothing but the lookup"""
+    cfg = cfg_of(fi)
+    cn = cfg.loc1(call)
+    handlers = [(d_, cfg.nodes[d_].ast) for d_, lab in cfg.succ[cn] if lab == "exc" and cfg.nodes[d_].kind == "handler"]
+    catching = []
+    for d_, h in handlers:
+        types = [] if h.type is None else (h.type.elts if isinstance(h.type, ast.Tuple) else [h.type])
+        qs = [ctx.prog.resolve_in_module(fi.module, chain(t) or "?") for t in types]
+        if h.type is None or any(ctx.prog.is_subclass("KeyError", q) for q in qs):
+            catching.append((d_, h))
+            break  # first matching handler takes it
+    if not catching:
+        # the KeyError is passed on: the callers of this function are examined in its place
+        return False
+    d_, h = catching[0]
+    exits_normally = cfg.exit in cfg.reach({d_}, include_src=True)
+    rs = raises_from(cfg, d_)
+    classes = sorted({raised_class(ctx.prog, fi, r) or "?" for r in rs})
+    if rs:
+        all_nf = all(c_ != "?" and ctx.prog.is_subclass(c_, "aiocoap.error.NotFound") for c_ in classes)
+        ctx.ob("a request for an unknown path is answered with 4.04 (NotFound raised on every path of the handler)", all_nf and not exits_normally, fi, h,
+               detail="handler raises %s%s" % (classes, ", can also complete normally" if exits_normally else ""), construct="except KeyError in %s" % fi.short)
+    covered = [n for n in cfg.nodes if n.kind in ("stmt", "return", "test", "for", "with") and (d_, "exc") in cfg.succ[n.id] and n.id != cn
+               and not (isinstance(n.ast, ast.Expr) and isinstance(n.ast.value, ast.Call) and is_log_call(n.ast.value))]
+    ctx.ob("the handler covers only the lookup (a KeyError raised inside the child is not mistaken for an unknown path)", not covered, fi, h,
+           detail="; ".join(stmt_text(n.ast, 60) for n in covered), construct="try body in %s" % fi.short)
+    return True
+
+
+@R.clause("C17.c", "every entry point of Site maps the lookup's KeyError to 4.04 / the documented default and otherwise delegates to the child found, with the stripped request")
 def c(ctx):
-    ctx.prog.func(FIND)
+    ffi = ctx.prog.func(FIND)
     nf = ctx.prog.cls("error.NotFound")
     code, _ = ctx.prog.class_attr(nf.qn, "code")
     ctx.ob("error.NotFound renders as 4.04 Not Found", code is not None and (chain(code) or "").split(".")[-1] == "NOT_FOUND", None, None, construct="error.NotFound.code",
            detail="code = %s" % (stmt_text(code) if code is not None else None))
     EA = EscapeAnalysis(ctx.prog)
-    lookup_escapes = EA.escapes(ctx.prog.func(FIND))
-    bad = [e for e in lookup_escapes if not ctx.prog.is_subclass(e.cls, "KeyError")]
-    ffi = ctx.prog.func(FIND)
+    lookup_escapes = EA.escapes(ffi)
+    bad = [e_ for e_ in lookup_escapes if not ctx.prog.is_subclass(e_.cls, "KeyError")]
     ctx.ob("the lookup itself signals 'no such child' by KeyError and raises nothing else", not bad and bool(lookup_escapes), ffi, ffi.node, construct="escape(_find_child_and_pathstripped_message)",
-           detail="; ".join(repr(e) for e in bad))
-    sites = []
-    for fi in ctx.prog.funcs.values():
-        for n in walk_no_nested(fi.node):
-            if isinstance(n, ast.Call) and isinstance(n.func, ast.Attribute) and n.func.attr == "_find_child_and_pathstripped_message":
-                sites.append((fi, n))
-    ctx.floor("call sites of _find_child_and_pathstripped_message", len(sites), 4)
-    for fi, call in sites:
-        cfg = cfg_of(fi)
-        cn = cfg.loc1(call)
-        handlers = [(d, cfg.nodes[d].ast) for d, lab in cfg.succ[cn] if lab == "exc" and cfg.nodes[d].kind == "handler"]
-        catching = []
-        for d, h in handlers:
-            types = [] if h.type is None else (h.type.elts if isinstance(h.type, ast.Tuple) else [h.type])
-            qs = [ctx.prog.resolve_in_module(fi.module, chain(t) or "?") for t in types]
-            if h.type is None or any(ctx.prog.is_subclass("KeyError", q) for q in qs):
-                catching.append((d, h))
-                break  # first matching handler takes it
-        esc = EA.escapes(fi)
-        leaked = [e for e in esc if e.func == ffi.short and ctx.prog.is_subclass(e.cls, "KeyError")]
-        ctx.ob("the lookup's KeyError does not leave the caller", bool(catching) and not leaked, fi, call, detail="; ".join(repr(e) for e in leaked) if leaked else None)
-        if not catching:
+           detail="; ".join(repr(e_) for e_ in bad))
+    # --- the routed entry points, evaluated
+    world = World(ctx)
+    it = world.it
+    for name, (extra, default, child_method) in ([] if lookup_refuted(ctx, "the entry points of Site") else sorted(ENTRY_POINTS.items())):
+        fi = ctx.prog.func(SITE + name)
+        ctx.need(len(params(fi)) == 1 + len(extra), "Site.%s signature changed" % name)
+        unknown, delegation, foreign = [], [], []
+        for path, registered_at, as_subsite in ((("a", "b"), ("a", "b"), False), ((), (), False), (("a", "b", "c"), ("a",), True), (("a", ""), ("a",), True), (("zz",), None, False), ((), None, False), (("a", "b"), ("a",), False)):
+            for child_fails in (False, True):
+                calls = []
+                marker = Obj(label="<result of the child's %s>" % child_method)
+
+                def child_call(it_, a, k, _m=None):
+                    calls.append((_m, list(a), dict(k), [x.attrs.get("request") if isinstance(x, Obj) else None for x in a]))
+
+                    def later():
+                        if child_fails:
+                            it_.throw("KeyError", "raised inside the child")
+                        return marker
+                    return Awaitable(later)
+
+                child = world.resource("child", path_capable=as_subsite)
+                for m in ("render", "render_to_pipe", "needs_blockwise_assembly", "add_observation"):
+                    child.methods[m] = Builtin(m, lambda it_, a, k, _m=m: child_call(it_, a, k, _m))
+                site = world.build({} if (as_subsite or registered_at is None) else {registered_at: child}, {registered_at: child} if as_subsite else {})
+                req = world.request(path)
+                pipe = Obj(label="pipe", open_=True, attrs={"request": req})
+                args = [pipe if name == "render_to_pipe" else req] + [Obj(label=x, open_=True) for x in extra]
+                out = it.run(world.method(site, name), args)
+                want = spec_lookup({registered_at: child} if registered_at is not None and not as_subsite else {}, {registered_at: child} if as_subsite else {}, path)
+                where = "%s(request for %r) with a %s registered at %r" % (name, path, "sub-site" if as_subsite else "resource", registered_at) if registered_at is not None else "%s(request for %r) on an empty site" % (name, path)
+                if want[0] == "miss":
+                    if child_fails:
+                        continue
+                    if default[0] == "raise":
+                        ok = out[0] == "raise" and ctx.prog.is_subclass(out[1].cls or "?", default[1])
+                    else:
+                        ok = out[0] == "return" and out[1] is default[1]
+                    if not ok or calls:
+                        unknown.append("%s %s%s" % (where, show_outcome(out), "; a child was called" if calls else ""))
+                    continue
+                if child_fails:
+                    if not (out[0] == "raise" and out[1].cls == "KeyError" and calls):
+                        foreign.append("%s, the child raising KeyError: %s" % (where, show_outcome(out)))
+                    continue
+                rem = want[2]
+                okc = len(calls) == 1 and calls[0][0] == child_method
+                if okc:
+                    m_, a_, k_, reqs = calls[0]
+                    msg = reqs[0] if name == "render_to_pipe" else (a_[0] if a_ else None)
+                    okc = isinstance(msg, Obj) and msg.copied_from is req and msg.attrs["opt"].attrs.get("uri_path") == rem
+                    if name == "render_to_pipe":
+                        okc = okc and a_ and a_[0] is pipe
+                    if extra:
+                        okc = okc and len(a_) == 1 + len(extra) and all(x is y for x, y in zip(a_[1:], args[1:]))
+                if name != "add_observation":
+                    okc = okc and out == ("return", marker)
+                else:
+                    okc = okc and out[0] == "return"
+                if not okc:
+                    delegation.append("%s: %s; calls on the child: %s" % (where, show_outcome(out), [(c_[0], c_[1]) for c_ in calls]))
+        ctx.ob("Site.%s answers a request for an unknown path with %s, without touching any child" % (name, "4.04 (error.NotFound)" if default[0] == "raise" else "its documented default (%r)" % (default[1],)),
+               not unknown, fi, fi.node, construct="unknown path in %s" % fi.short, detail=unknown[0] if unknown else None)
+        ctx.ob("Site.%s hands the request to the child found by the lookup -- child.%s with the path-stripped copy -- and returns what the child returns" % (name, child_method),
+               not delegation, fi, fi.node, construct="delegation in %s" % fi.short, detail=delegation[0] if delegation else None)
+        ctx.ob("a KeyError raised inside the child is not mistaken for an unknown path in Site.%s (only the lookup's KeyError is mapped)" % name,
+               not foreign, fi, fi.node, construct="child's KeyError in %s" % fi.short, detail=foreign[0] if foreign else None)
+    # --- any other caller of the lookup (a helper wrapping it, ...): the lookup's name is unique in the package, wrappers are
+    # followed through `self.<wrapper>(...)` calls inside Site only
+    entry_shorts = {SITE + n for n in ENTRY_POINTS}
+    todo = [ffi]
+    seen = set()
+    while todo:
+        target = todo.pop()
+        if target.qn in seen:
             continue
-        d, h = catching[0]
-        want = CALLER_TABLE.get(fi.short, ("either", None))
-        # what the handler does on every path
-        exits_normally = cfg.exit in cfg.reach({d}, include_src=True)
-        rs = raises_from(cfg, d)
-        rets = _returns_from(cfg, d)
-        classes = sorted({raised_class(ctx.prog, fi, r) or "?" for r in rs})
-        all_nf = bool(rs) and all(c != "?" and ctx.prog.is_subclass(c, "aiocoap.error.NotFound") for c in classes)
-        if want[0] == "raise" or (want[0] == "either" and rs):
-            ctx.ob("a request for an unknown path is answered with 4.04 (NotFound raised on every path of the handler)", all_nf and not exits_normally, fi, h,
-                   detail="handler raises %s%s" % (classes, ", can also complete normally" if exits_normally else ""), construct="except KeyError in %s" % fi.short)
-        else:
-            okr = bool(rets) and not rs and cfg.must_pass(d, rets)
-            if want[0] == "return":
-                for rn in rets:
-                    v = cfg.nodes[rn].ast.value
-                    val = None if v is None else (v.value if isinstance(v, ast.Constant) else "?")
-                    okr = okr and val is want[1]
-            # the handler must not fall through into code using the (unbound) child
-            bound = set()
-            st_ = cfg.nodes[cn].ast
-            if isinstance(st_, ast.Assign):
-                bound = {x.id for t in st_.targets for x in ast.walk(t) if isinstance(x, ast.Name)}
-            uses_child = [n for n in sorted(cfg.reach({d}, include_src=True)) if cfg.nodes[n].ast is not None and cfg.nodes[n].kind in ("stmt", "return", "test", "for", "with")
-                          and any(isinstance(x, ast.Name) and x.id in bound and isinstance(x.ctx, ast.Load) for x in ast.walk(cfg.nodes[n].ast))]
-            ctx.ob("for an unknown path the caller returns its documented default (%r) without touching a child" % (want[1],), okr and not uses_child, fi, h,
-                   construct="except KeyError in %s" % fi.short)
-        # nothing but the lookup is covered by the handler (a child's own KeyError must not become 4.04)
-        covered = [n for n in cfg.nodes if n.kind in ("stmt", "return", "test", "for", "with") and (d, "exc") in cfg.succ[n.id] and n.id != cn
-                   and not (isinstance(n.ast, ast.Expr) and isinstance(n.ast.value, ast.Call) and is_log_call(n.ast.value))]
-        ctx.ob("the handler covers only the lookup (a KeyError raised inside the child is not mistaken for an unknown path)", not covered, fi, h,
-               detail="; ".join(stmt_text(n.ast, 60) for n in covered), construct="try body in %s" % fi.short)
+        seen.add(target.qn)
+        for fi in ctx.prog.funcs.values():
+            if fi.short in entry_shorts or fi is target:
+                continue
+            in_site = fi.cls is not None and fi.cls.qn == SITE_QN
+            if target is not ffi and not in_site:
+                continue
+            for n in walk_no_nested(fi.node):
+                if isinstance(n, ast.Call) and isinstance(n.func, ast.Attribute) and n.func.attr == target.name and (target is ffi or chain(n.func.value) == "self"):
+                    if not static_caller_check(ctx, EA, ffi, fi, n) and in_site:
+                        todo.append(fi)
 
 
 # ---------------------------------------------------------------------------
@@ -571,459 +539,588 @@ def c(ctx):
 WRITERS = {"resource.Site.__init__", "resource.Site.add_resource", "resource.Site.remove_resource"}
 
 
-def _self_fields_read(fi):
-    out = {}
-    for n in walk_no_nested(fi.node):
-        if isinstance(n, ast.Attribute) and isinstance(n.value, ast.Name) and n.value.id == "self" and isinstance(n.ctx, ast.Load):
-            out.setdefault(n.attr, n)
-    return out
+def owner_ok(prog, f, seen):
+    """Is `f` one of the three owners of the tables, or a helper of theirs that the helper expansion could not dissolve (a
+    function nested in an owner, or a method of Site that does not exist on the confirmed tree and is called -- as
+    `self.<name>(...)` -- from acceptable functions only)?  Such a helper writes the table on behalf of its owner."""
+    from ..inline import baseline
+    if f.short in WRITERS:
+        return True
+    if f.qn in seen:
+        return False
+    seen = seen | {f.qn}
+    if f.parent is not None:
+        return owner_ok(prog, f.parent, seen)
+    if f.cls is None or f.cls.qn != SITE_QN or f.qn.split("#")[0] in baseline():
+        return False
+    callers = []
+    for g in prog.funcs.values():
+        for n in ast.walk(g.node) if g.parent is None else ():
+            if isinstance(n, ast.Attribute) and n.attr == f.name and g is not f:
+                callers.append(g)
+    return bool(callers) and all(owner_ok(prog, g, seen) for g in callers)
 
 
-@R.clause("C17.d", "_resources/_subsites are written only by __init__/add_resource/remove_resource; lookup and listing read only these tables; add_resource files by PathCapable under tuple(path); remove_resource deletes from one of the two")
+class Model:
+    """reference model of a site's registrations"""
+
+    def __init__(self):
+        self.resources = {}
+        self.subsites = {}
+
+    def table(self, obj):
+        return self.subsites if obj.cls is not None and obj.cls in (PC_QN, SITE_QN) else self.resources
+
+
+def probe_paths(model):
+    """registered paths, their extensions and shortenings, and a few unrelated ones"""
+    keys = list(model.resources) + list(model.subsites)
+    out = [(), ("zz",)]
+    for k in keys:
+        out.extend([k, k + ("x",), k + ("",), k + ("x", "y"), k[:-1]])
+    seen = []
+    for p in out:
+        if p not in seen:
+            seen.append(p)
+    return seen
+
+
+def compare_lookups(world, site, model):
+    for p in probe_paths(model):
+        f, out, req = check_lookup(world, site, model.resources, model.subsites, p)
+        f = {k: v for k, v in f.items() if k in ("child", "remainder", "miss", "terminates")}  # which child, with which path
+        if f:
+            return "request path %r with resources at %s and sub-sites at %s: %s" % (p, sorted(model.resources) or "-", sorted(model.subsites) or "-", "; ".join(f.values()))
+    return None
+
+
+def d_histories(ctx, add, rem, init):
+    world = World(ctx)
+    # --- fresh sites
+    s1, s2 = world.new_site(), world.new_site()
+    r = world.resource("resource")
+    sub = world.resource("subsite", path_capable=True)
+    m1, m2 = Model(), Model()
+    bad = compare_lookups(world, s1, m1)
+    out1 = world.add(s1, ("a",), r)
+    out2 = world.add(s1, ["b"], sub)
+    m1.resources[("a",)] = r
+    m1.subsites[("b",)] = sub
+    bad = bad or (None if out1 == ("return", None) and out2 == ("return", None) else "add_resource %s / %s" % (show_outcome(out1), show_outcome(out2)))
+    bad = bad or compare_lookups(world, s2, m2)
+    for p in (("a",), ("b", "x")):
+        f, out, req = check_lookup(world, s2, {}, {}, p)
+        bad = bad or ("; ".join(v for k, v in f.items() if k in ("miss", "terminates")) or None)
+    ctx.ob("a new Site starts with empty tables of its own (registrations in one site are not visible in another)", not bad, init, init.node, construct="Site(): own empty tables", detail=bad)
+    # --- a history of registrations and removals: every following request sees the current registrations
+    site = world.new_site()
+    model = Model()
+    objs = {
+        "r1": world.resource("r1", {"rt": "one"}), "r2": world.resource("r2"), "r3": world.resource("r3", {}), "root": world.resource("root", {"ct": "40"}),
+        "s1": world.resource("s1", path_capable=True), "s2": world.resource("s2", path_capable=True), "s3": world.resource("s3", path_capable=True),
+    }
+    history = [
+        ("add", ["a"], "r1"), ("add", ("a", "b"), "s1"), ("add", [], "root"), ("add", ("a", "b", "c"), "r2"), ("add", ["a", "b", "c"], "s2"),
+        ("remove", ("a", "b"), None), ("add", ("a",), "s3"), ("remove", ["a", "b", "c"], None), ("add", ("a", "b", ""), "r3"), ("remove", [], None),
+        ("remove", ["a", "b", "c"], None), ("add", ["a"], "r2"), ("remove", ("a",), None), ("remove", ("a",), None), ("remove", ("a", "b", ""), None),
+    ]
+    bad_add = bad_rem = bad_seq = None
+    for i, (op, path, name) in enumerate(history):
+        key = tuple(path)
+        where = "step %d: %s(%r%s)" % (i + 1, "add_resource" if op == "add" else "remove_resource", path, ", %s" % name if name else "")
+        if op == "add":
+            out = world.add(site, path, objs[name])
+            if out != ("return", None):
+                bad_add = bad_add or "%s %s" % (where, show_outcome(out))
+                break
+            model.table(objs[name])[key] = objs[name]
+            msg = compare_lookups(world, site, model)
+            if msg:
+                bad_add = bad_add or "after %s: %s" % (where, msg)
+                break
+        else:
+            cands = [t for t in (model.subsites, model.resources) if key in t]
+            out = world.remove(site, path)
+            if out != ("return", None):
+                bad_rem = bad_rem or "%s %s" % (where, show_outcome(out))
+                break
+            ok = False
+            for t in cands:  # registered both as resource and as sub-site: either one may go
+                saved = t.pop(key)
+                if compare_lookups(world, site, model) is None:
+                    ok = True
+                    break
+                t[key] = saved
+            if not ok:
+                if cands:
+                    cands[0].pop(key)
+                bad_rem = bad_rem or "after %s: %s" % (where, compare_lookups(world, site, model) or "no entry was removed")
+                break
+        # the listing is a function of the current registrations: the same as on a site on which just these were registered afresh
+        fresh = world.new_site()
+        world.build_into(fresh, Model(), list(model.resources.items()) + list(model.subsites.items()))
+        l1, l2 = listed(world, site), listed(world, fresh)
+        if l1 != l2:
+            bad_seq = bad_seq or "after %s: the listing gives %s, a site with the same registrations made afresh gives %s" % (where, l1, l2)
+            break
+    ctx.ob("add_resource files a PathCapable object as sub-site and anything else as resource under tuple(path), and the registration is seen by the next request", not bad_add, add, add.node,
+           construct="add_resource takes effect", detail=bad_add or "%d-step history evaluated" % len(history))
+    ctx.ob("remove_resource removes the entry registered under tuple(path) from one of the two tables, and the removal is seen by the next request", not bad_rem, rem, rem.node,
+           construct="remove_resource takes effect", detail=bad_rem)
+    ctx.ob("the listing follows every registration and removal", not bad_seq, ctx.prog.func(SITE + "get_resources_as_linkheader"), None, construct="listing follows add/remove", detail=bad_seq)
+    if families(ctx)["diagnosis"] == "registration" and (bad or bad_add or bad_rem):
+        return  # what follows observes further registrations, which are already refuted
+    # --- rejected inputs
+    site = world.new_site()
+    out = world.add(site, "ab", r)
+    silent = None
+    if out[0] == "return":
+        f, o2, _ = check_lookup(world, site, {("a", "b"): r}, {}, ("a", "b"))
+        silent = "add_resource('ab', r) returns, but r is not found under ('a', 'b')" if "child" in f else None
+    elif out[0] == "diverged":
+        silent = "add_resource('ab', r) does not terminate"
+    ctx.ob("add_resource never silently drops a registration (a str path is rejected with an exception or registered)", not silent, add, add.node, construct="add_resource: str path", detail=silent or show_outcome(out))
+    site = world.build({("a",): r}, {("b",): sub})
+    out = world.remove(site, ("nope",))
+    okm = out[0] == "raise" and ctx.prog.is_subclass(out[1].cls or "?", "KeyError")
+    m = Model()
+    m.resources[("a",)] = r
+    m.subsites[("b",)] = sub
+    still = compare_lookups(world, site, m)
+    ctx.ob("remove_resource of a path that is not registered raises KeyError and removes nothing", okm and not still, rem, rem.node, construct="remove_resource: unknown path", detail=still or show_outcome(out))
+
+
+@R.clause("C17.d", "_resources/_subsites are written only by __init__/add_resource/remove_resource; registration and removal take effect for the next request; lookup and listing read only the live tables")
 def d(ctx):
-    site = ctx.prog.cls("resource.Site")
+    site_ci = ctx.prog.cls("resource.Site")
     pc = ctx.prog.cls("resource.PathCapable")
+    # --- ownership
+    tw = table_writers(ctx.prog, TABLES)
     for t in TABLES:
-        ws = field_writers(ctx.prog, t)
+        ws = tw[t]
         ctx.floor("functions writing %s" % t, len(ws), 2)
         for fn, hits in sorted(ws.items()):
             f = ctx.prog.func(fn)
-            ctx.ob("%s is written only by Site.__init__, add_resource and remove_resource" % t, fn in WRITERS, f, hits[0][1])
+            ctx.ob("%s is written only by Site.__init__, add_resource and remove_resource" % t, owner_ok(ctx.prog, f, set()), f, hits[0][1])
+    ctx.ob("Site itself is PathCapable (nested sites are routed by prefix)", ctx.prog.is_subclass(site_ci.qn, pc.qn), None, None, construct="class Site(PathCapable)")
+    add = ctx.prog.func(SITE + "add_resource")
+    rem = ctx.prog.func(SITE + "remove_resource")
     init = ctx.prog.func(SITE + "__init__")
-    for t in TABLES:
-        st = [n for k, n in stores_to(init.node, "self." + t) if k == "assign"]
-        ok = len(st) == 1 and isinstance(st[0], ast.Assign) and ((isinstance(st[0].value, ast.Dict) and not st[0].value.keys) or (isinstance(st[0].value, ast.Call) and chain(st[0].value.func) == "dict" and not st[0].value.args and not st[0].value.keywords))
-        ctx.ob("a new Site starts with an empty %s table of its own" % t, ok, init, st[0] if st else init.node)
-    # lookup and listing read the live tables, nothing derived
-    all_methods = {name: f for name, f in site.methods.items()}
+    ctx.need(len(params(add)) == 2 and len(params(rem)) == 1, "add_resource/remove_resource signature changed")
+    ctx.need(is_plain_sync(add) and is_plain_sync(rem), "add_resource/remove_resource are not plain synchronous functions")
+    if families(ctx)["diagnosis"] != "lookup":
+        d_histories(ctx, add, rem, init)
+    else:
+        lookup_refuted(ctx, "the registration histories")
+    # --- lookup and listing read the live tables, no other per-site state
+    written = instance_written_attrs(ctx.prog)
     for name in ("_find_child_and_pathstripped_message", "get_resources_as_linkheader"):
-        ctx.need(name in all_methods, "Site.%s missing" % name)
-        f = all_methods[name]
-        reads = _self_fields_read(f)
+        f = ctx.prog.func(SITE + name)
+        reads = self_state_reads(ctx.prog, f, SITE_QN)
         for attr, node in sorted(reads.items()):
-            if attr in TABLES or attr in all_methods or attr in ("log", "logger", "_log"):
+            if attr in TABLES or attr in ("log", "logger", "_log", "<computed>") or (attr.startswith("__") and attr.endswith("__")):
                 continue
+            cexpr, _ci = ctx.prog.class_attr(SITE_QN, attr)
+            if cexpr is not None and attr not in written:
+                continue  # a class-level constant
             # another per-site container: acceptable only if both add_resource and remove_resource maintain it
             ws = field_writers(ctx.prog, attr, modules={"aiocoap.resource"})
+            if set(ws) == {SITE + "__init__"} and all(k == "assign" and isinstance(n_, ast.Assign) and isinstance(n_.value, ast.Constant) for k, n_ in ws[SITE + "__init__"]):
+                continue  # a per-instance constant set once by the constructor
             maintained = {SITE + "add_resource", SITE + "remove_resource"} <= set(ws)
             ctx.ob("Site.%s reads no per-site state besides the two live tables (a change by add_resource/remove_resource is visible to the next request)" % name, maintained, f, node,
-                   detail="reads self.%s, written by %s" % (attr, sorted(ws)))
+                   detail="reads self.%s, written by %s" % (attr, sorted(ws)), construct="Site.%s reads self.%s" % (name, attr))
         ctx.ob("Site.%s reads the live tables" % name, any(t in reads for t in TABLES), f, f.node, construct="Site.%s table reads" % name)
-        for t in TABLES:
-            aliased = [n for n in walk_no_nested(f.node) if isinstance(n, ast.Call) and chain(n.func) in ("dict", "list", "tuple", "set", "frozenset", "sorted") and n.args and chain(n.args[0]) == "self." + t]
-            ctx.need(not aliased or name != "_find_child_and_pathstripped_message", "the lookup copies a table: outside the rule's vocabulary")
-    # add_resource
-    add = ctx.prog.func(SITE + "add_resource")
-    ap = params(add)
-    ctx.need(len(ap) == 2, "add_resource signature changed")
-    path, res = ap
-    acfg = cfg_of(add)
-    N = Normalizer()
-    nstores = 0
-    for t, want_pc in (("_subsites", True), ("_resources", False)):
-        sts = [(k, n) for k, n in stores_to(add.node, "self." + t)]
-        ctx.floor("stores into %s in add_resource" % t, len(sts), 1)
-        for k, n in sts:
-            nstores += 1
-            ok = k == "setitem" and isinstance(n, ast.Assign) and isinstance(n.targets[0], ast.Subscript)
-            ctx.need(ok, "add_resource: %s is written by something other than an item assignment" % t)
-            keyx = resolve_at(add, n.targets[0].slice, acfg.loc1(n))
-            mk = match("tuple(%s)" % path, keyx)
-            ctx.ob("add_resource keys %s by tuple(path)" % t, mk is not None and not writes_to_name(add.node, path), add, n, detail="key: %s" % stmt_text(keyx, 60))
-            ctx.ob("add_resource stores the resource it was given", isinstance(n.value, ast.Name) and n.value.id == res and not writes_to_name(add.node, res), add, n)
-            pol = None
-            others = []
-            for e, p_ in guard_exprs(acfg, acfg.loc1(n)):
-                m = match("isinstance(%s, $c)" % res, e)
-                if m is not None and ctx.prog.resolve_in_module(add.module, chain(m["c"]) or "?") == pc.qn:
-                    pol = p_
-                else:
-                    sib = None
-                    others.append((e, p_))
-            ctx.ob("add_resource files a %s under %s" % ("PathCapable object" if want_pc else "resource that is not PathCapable", t), pol is want_pc, add, n,
-                   detail="isinstance(resource, PathCapable) is %s here" % pol)
-            # further conditions must be rejections (e.g. the str check), not silent drops
-            silent = []
-            for e, pol2, pid in acfg.guards(acfg.loc1(n)):
-                if match("isinstance(%s, $c)" % res, e) is not None:
-                    continue
-                sib = sibling(acfg, pid)
-                if sib is None or not side_rejects(acfg, sib):
-                    silent.append(e)
-            ctx.ob("add_resource never silently drops a registration", not silent, add, n, detail="; ".join(stmt_text(e, 60) for e in silent))
-    allst = [acfg.loc1(n) for t in TABLES for k, n in stores_to(add.node, "self." + t)]
-    ctx.ob("every normal path through add_resource registers the resource in one of the two tables", acfg.must_pass(acfg.entry, allst), add, add.node, construct="add_resource paths")
-    ctx.ob("Site itself is PathCapable (nested sites are routed by prefix)", ctx.prog.is_subclass(site.qn, pc.qn), None, None, construct="class Site(PathCapable)")
-    # remove_resource
-    rem = ctx.prog.func(SITE + "remove_resource")
-    rp = params(rem)
-    ctx.need(len(rp) == 1, "remove_resource signature changed")
-    rcfg = cfg_of(rem)
-    dels = {}
-    for t in TABLES:
-        for k, n in stores_to(rem.node, "self." + t):
-            if k in ("delitem", "pop"):
-                keyx = n.targets[0].slice if k == "delitem" else (n.args[0] if n.args else None)
-                keyx = resolve_at(rem, keyx, rcfg.loc1(n)) if keyx is not None else None
-                ctx.ob("remove_resource addresses %s by tuple(path)" % t, keyx is not None and match("tuple(%s)" % rp[0], keyx) is not None and not writes_to_name(rem.node, rp[0]), rem, n)
-                if k == "pop":
-                    ctx.need(len(n.args) == 1, "remove_resource: pop with a default is outside the rule's vocabulary")
-                dels.setdefault(t, []).append(rcfg.loc1(n))
-            else:
-                ctx.ob("remove_resource only deletes", False, rem, n)
-    for t in TABLES:
-        ctx.ob("remove_resource can delete from %s" % t, bool(dels.get(t)), rem, rem.node, construct="remove_resource: delete from %s" % t)
-    alld = [x for v in dels.values() for x in v]
-    ctx.ob("every path through remove_resource that ends normally has deleted an entry from one of the two tables", bool(alld) and rcfg.must_pass(rcfg.entry, alld, skip_labels=()), rem, rem.node, construct="remove_resource paths")
 
 
 # ---------------------------------------------------------------------------
 # C17.e
 
 
-@R.clause("C17.e", "both stripping arms store _original_request_path on the copy; get_request_uri prefers the attribute of the same name")
+def reconstructed_path(world, msg):
+    """URI of a message as composed by Message.get_request_uri in the evaluator -> (path text | None, diagnostic)"""
+    g = world.it.getattr_(msg, "get_request_uri")
+    out = world.it.run(g, [])
+    if out[0] != "return":
+        return None, "get_request_uri %s" % show_outcome(out)
+    uri = out[1]
+    if isinstance(uri, Opaque) or not isinstance(uri, str):
+        raise AnalysisError("%s: get_request_uri composes its result from parts the evaluator does not know (%r)" % (world.ctx.clause, uri))
+    prefix = "coap://" + HOST
+    if not uri.startswith(prefix):
+        return None, "get_request_uri returns %r" % uri
+    return uri[len(prefix):], uri
+
+
+def _urlun(fn):
+    def stub(it, a, k):
+        parts = tuple(it.iterate(a[0]))
+        if any(isinstance(p, Opaque) for p in parts):
+            return Opaque("URI")
+        if not all(p is None or isinstance(p, str) for p in parts):
+            it.throw("TypeError", "URI components must be str")
+        return it._py(fn, parts)
+    return stub
+
+
+URI_STUBS = {
+    # pure standard-library functions, applied by the checker to the concrete components the analysed code hands over
+    "urllib.parse.urlunparse": Builtin("urlunparse", _urlun(urllib.parse.urlunparse)),
+    "urllib.parse.urlunsplit": Builtin("urlunsplit", _urlun(urllib.parse.urlunsplit)),
+}
+
+
+def uri_path_of(components):
+    return "".join("/" + c for c in components) or "/"
+
+
+@R.clause("C17.e", "the child receives a copy of the request in which only uri_path is replaced, and get_request_uri on that copy (also through nested sites) reconstructs the original request path")
 def e(ctx):
-    fi, cfg, req = _finder(ctx)
-    rets = [n for n in cfg.nodes if n.kind == "return" and cfg.is_reachable(n.id)]
-    ctx.floor("returns of the lookup", len(rets), 2)
-    names = set()
-    gnode = ctx.prog.func("message.Message.get_request_uri").node
-    reader_attrs = {n.attr for n in walk_no_nested(gnode) if isinstance(n, ast.Attribute)} | \
-        {n.args[1].value for n in walk_no_nested(gnode) if isinstance(n, ast.Call) and chain(n.func) in ("hasattr", "getattr") and len(n.args) >= 2 and isinstance(n.args[1], ast.Constant)}
-    for r in rets:
-        v = r.ast.value
-        ctx.need(isinstance(v, ast.Tuple) and len(v.elts) == 2, "the lookup returns something other than a (child, message) pair")
-        cp = v.elts[1]
-        ctx.need(isinstance(cp, ast.Name), "the stripped message is not held in a local")
-        ds = reaching_defs(fi, cp.id, r.id)
-        ctx.need(len(ds) == 1 and ds[0] != PARAM, "the stripped message has no unique definition at the return")
-        dn = cfg.loc1(ds[0])
-        dv = def_value(ds[0], cp.id)
-        okc = dv[0] == "expr" and match("%s.copy($**kw)" % req, dv[1]) is not None
-        ctx.ob("the returned message is a copy of the request (the caller's message object is not modified)", okc, fi, r.ast)
-        stores = []
-        for n in walk_no_nested(fi.node):
-            if isinstance(n, ast.Assign):
-                for t in n.targets:
-                    if isinstance(t, ast.Attribute) and isinstance(t.value, ast.Name) and t.value.id == cp.id:
-                        stores.append((t.attr, n))
-        on_path = [(a_, n) for a_, n in stores if cfg.dominates(dn, cfg.loc1(n)) and cfg.must_pass(dn, [cfg.loc1(n)], to=r.id)]
-        if len(on_path) > 1:
-            # further attributes on the copy are not this clause's business: keep those get_request_uri knows
-            on_path = [(a_, n) for a_, n in on_path if a_ in reader_attrs]
-        ctx.ob("the original request path is stored on the copy before it is returned", len(on_path) == 1, fi, r.ast, detail="attribute stores on the copy: %s" % [a_ for a_, _ in stores])
-        for attr, st in on_path:
-            names.add(attr)
-            val = resolve_at(fi, st.value, cfg.loc1(st))
-            m = match("getattr(%s, $n, $dflt)" % req, val)
-            ok = False
-            if m is not None:
-                ok = isinstance(m["n"], ast.Constant) and m["n"].value == attr and chain(m["dflt"]) == "%s.opt.uri_path" % req
-            elif isinstance(val, ast.IfExp):
-                mt = match("hasattr(%s, $n)" % req, val.test)
-                ok = mt is not None and isinstance(mt["n"], ast.Constant) and mt["n"].value == attr and chain(val.body) == "%s.%s" % (req, attr) and chain(val.orelse) == "%s.opt.uri_path" % req
-            ctx.ob("the stored value is the request's own %s if present (nested sites), else its full Uri-Path" % attr, ok, fi, st, detail="value: %s" % stmt_text(val, 90))
-            # the value is taken before anything is stripped: it does not depend on the copy
-            ctx.ob("the stored value does not depend on the stripped copy", cp.id not in names_in(val), fi, st)
-    ctx.need(len(names) <= 1, "the two stripping arms store different attributes: %s" % sorted(names))
-    # reader
+    fi = ctx.prog.func(FIND)
     gfi = ctx.prog.func("message.Message.get_request_uri")
-    gcfg = cfg_of(gfi)
-    slots = urlunparse_slots(gfi)
-    ctx.need(slots, "get_request_uri: no urlunparse call found")
-    for attr in sorted(names):
-        reads = [n for n in walk_no_nested(gfi.node) if isinstance(n, ast.Attribute) and n.attr == attr and isinstance(n.ctx, ast.Load)]
-        ctx.ob("get_request_uri reads the attribute the Site stores (%s)" % attr, bool(reads), gfi, reads[0] if reads else gfi.node, construct="get_request_uri reads %s" % attr)
-        for call, sl in slots:
-            at = gcfg.loc1(call)
-            ex = resolve_at(gfi, sl["path"], at)
-            j = join_site(ctx.prog, gfi, ex)
-            ctx.need(j is not None and isinstance(j[3], ast.Name), "get_request_uri: the path passed to urlunparse is not a join over a local")
-            src = j[3].id
-            jn = gcfg.loc1(ex)
-            defs = [w for w in reaching_defs(gfi, src, jn) if w != PARAM]
-            pref, fallback = [], []
-            for w in defs:
-                dv = def_value(w, src)
-                if dv[0] != "expr":
-                    continue
-                if isinstance(dv[1], ast.Attribute) and dv[1].attr == attr:
-                    pref.append((w, dv[1]))
-                elif (chain(dv[1]) or "").endswith(".opt.uri_path"):
-                    fallback.append((w, dv[1]))
-            ctx.ob("the stored original path reaches the path component of the composed URI", bool(pref), gfi, ex)
-            for w, val in pref:
-                owner = chain(val.value)
-                okg = guarded_by(gcfg, gcfg.loc1(w), "hasattr(%s, $n)" % owner, True, None) and any(
-                    isinstance(m_["n"], ast.Constant) and m_["n"].value == attr for e_, pol in guard_exprs(gcfg, gcfg.loc1(w)) for m_ in [match("hasattr(%s, $n)" % owner, e_)] if m_ is not None and pol)
-                ctx.ob("the attribute is used exactly when it is present (same name on writer and reader)", okg, gfi, w)
-            for w, val in fallback:
-                okf = any(m_ is not None and isinstance(m_["n"], ast.Constant) and m_["n"].value == attr and not pol for e_, pol in guard_exprs(gcfg, gcfg.loc1(w)) for m_ in [match("hasattr($o, $n)", e_)])
-                ctx.ob("the (possibly stripped) Uri-Path option is used only when no original path is stored", okf, gfi, w)
+    world = World(ctx, stubs=URI_STUBS)
+    r = world.resource("resource")
+    sub = world.resource("subsite", path_capable=True)
+    # --- a message that was never stripped
+    plain = []
+    for p in ((), ("p",), ("p", "q")):
+        got, diag = reconstructed_path(world, world.request(p))
+        if got != uri_path_of(p):
+            plain.append("Uri-Path %r: %s" % (p, diag))
+    ctx.ob("get_request_uri of a message that was not stripped composes the path from its own Uri-Path options", not plain, gfi, gfi.node, construct="get_request_uri: plain message", detail=plain[0] if plain else None)
+    if lookup_refuted(ctx, "the original request path of stripped messages"):
+        return
+    # --- single level: both arms, with and without an inherited original path
+    copies, uris, reader = [], [], []
+    n = 0
+    for path, resources, subsites in (
+        (("a", "b"), {("a", "b"): r}, {}), ((), {(): r}, {}), (("a", "b", "c"), {}, {("a",): sub}), (("a", "b", "c"), {}, {("a", "b"): sub, ("a",): sub}),
+        (("a", ""), {}, {("a",): sub}), (("a", "b"), {("a", "b"): r}, {("a",): sub}),
+    ):
+        for orig in ("absent", ("outer", "site") + path):
+            site = world.build(resources, subsites)
+            f, out, req = check_lookup(world, site, resources, subsites, path, orig)
+            n += 1
+            where = describe(path, resources, subsites) + (", request already carries the original path %r" % (orig,) if orig != "absent" else "")
+            if "copy" in f or "pure" in f:
+                copies.append("%s: %s" % (where, f.get("copy") or f.get("pure")))
+            if out[0] != "return" or not (isinstance(out[1], (tuple, list)) and len(out[1]) == 2 and isinstance(out[1][1], Obj)):
+                uris.append("%s: %s" % (where, show_outcome(out)))
+                continue
+            want_t = tuple(path if orig == "absent" else orig)
+            want = uri_path_of(want_t)
+            got, diag = reconstructed_path(world, out[1][1])
+            if got != want:
+                stored = [k for k, v in out[1][1].attrs.items() if k not in ("opt", "remote", "code", "direction") and isinstance(v, (tuple, list)) and tuple(v) == want_t]
+                (reader if stored else uris).append("%s: the stripped message %sreports %s instead of the path %r" % (where, ("carries the original path as %s but " % stored[0]) if stored else "", diag, want))
+    ctx.ob("the message handed to the child is a copy of the request in which only uri_path is replaced (the caller's message is not modified)", not copies, fi, fi.node,
+           construct="lookup: stripped copy", detail=copies[0] if copies else "%d configurations evaluated" % n)
+    ctx.ob("after stripping (exact-match arm and prefix arm) the original request path -- the request's own stored original if present (nested sites), else its full Uri-Path -- is stored on the copy, "
+           "so that get_request_uri on the copy still yields it", not uris, fi, fi.node, construct="original request path: one level", detail=uris[0] if uris else "%d configurations evaluated" % n)
+    ctx.ob("get_request_uri prefers the original request path stored by the Site over the (stripped) Uri-Path options (same attribute on writer and reader)", not reader, gfi, gfi.node,
+           construct="get_request_uri: stored original path", detail=reader[0] if reader else None)
+    # --- two levels of nested sites
+    nested = []
+    for tail, inner_res, inner_sub in ((("x",), True, False), (("x", "y"), True, False), (("",), True, False), (("x", "y"), False, True)):
+        inner = world.new_site("inner")
+        leaf = world.resource("leaf")
+        leafsite = world.resource("leafsite", path_capable=True)
+        if inner_res:
+            key = () if tail == ("",) else tail
+            world.build_into(inner, Model(), [(key, leaf)])
+        if inner_sub:
+            world.build_into(inner, Model(), [(tail[:1], leafsite)])
+        outer = world.build({}, {("s", "t"): inner})
+        full = ("s", "t") + tail
+        req = world.request(full)
+        o1 = world.lookup(outer, req)
+        where = "request path %r through a site nested at ('s', 't')" % (full,)
+        if o1[0] != "return" or o1[1][0] is not inner:
+            nested.append("%s: outer lookup %s" % (where, show_outcome(o1)))
+            continue
+        o2 = world.lookup(inner, o1[1][1])
+        if o2[0] != "return" or o2[1][0] is not (leaf if inner_res else leafsite):
+            nested.append("%s: inner lookup %s" % (where, show_outcome(o2)))
+            continue
+        got, diag = reconstructed_path(world, o2[1][1])
+        if got != uri_path_of(full):
+            nested.append("%s: the twice-stripped message reports %s" % (where, diag))
+    ctx.ob("through nested sites the original request path survives every stripping step (an inner site keeps the outer site's stored original)", not nested, fi, fi.node,
+           construct="original request path: nested sites", detail=nested[0] if nested else None)
 
 
 # ---------------------------------------------------------------------------
 # C17.f
 
 
-@R.clause("C17.f", "the listing iterates exactly the two tables, skips a resource only when its description is None, prefixes nested links with the sub-site's path")
+def links_of(world, value):
+    """[(href, ((key, value), ...))] of a LinkFormat-like result, or a diagnostic string"""
+    if not isinstance(value, Obj):
+        return "the listing is %r" % (value,)
+    try:
+        links = world.it.getattr_(value, "links")
+        out = []
+        for l in world.it.iterate(links):
+            href = world.it.getattr_(l, "href")
+            pairs = world.it.getattr_(l, "attr_pairs")
+            out.append((href, tuple(tuple(world.it.iterate(p)) for p in world.it.iterate(pairs))))
+        return out
+    except Raised as r_:
+        return "the listing cannot be read: %s" % show_outcome(("raise", r_.exc))
+
+
+def listed(world, site):
+    """sorted entries of a site's listing, or a diagnostic"""
+    out = world.listing(site)
+    if out[0] != "return":
+        return "get_resources_as_linkheader %s" % show_outcome(out)
+    got = links_of(world, out[1])
+    return got if isinstance(got, str) else sorted(got, key=repr)
+
+
+def spec_listing(model, descriptions, nested):
+    """reference listing: descriptions {id(resource): dict | None | 'absent'}, nested {id(subsite): reference listing | None}"""
+    out = []
+    for path, res in model.resources.items():
+        dsc = descriptions.get(id(res), "absent")
+        if dsc is None:
+            continue
+        out.append(("/" + "/".join(path), tuple((k, v) for k, v in ({} if dsc == "absent" else dsc).items())))
+    for path, s in model.subsites.items():
+        inner = nested.get(id(s))
+        if inner is None:
+            continue
+        for href, pairs in inner:
+            out.append(("/" + "/".join(path) + href, pairs))
+    return out
+
+
+def description_of(res):
+    if hasattr(res, "expected_description"):
+        return res.expected_description
+    m = res.methods.get("get_link_description")
+    if m is None:
+        return "absent"
+    return m.fn(None, [], {})
+
+
+def compare_listing(world, site, model, nested=None, ordered_pairs=True):
+    """-> None or a diagnostic; foreign PathCapable objects have no listing, nested Site objects are passed in `nested`"""
+    out = world.listing(site)
+    if out[0] != "return":
+        return "get_resources_as_linkheader %s" % show_outcome(out)
+    got = links_of(world, out[1])
+    if isinstance(got, str):
+        return got
+    want = spec_listing(model, {id(r_): description_of(r_) for r_ in model.resources.values()}, nested or {})
+    if not ordered_pairs:
+        got = [(h, tuple(sorted(p, key=repr))) for h, p in got]
+        want = [(h, tuple(sorted(p, key=repr))) for h, p in want]
+    if sorted(got, key=repr) != sorted(want, key=repr):
+        missing = [x for x in want if x not in got]
+        extra = [x for x in got if x not in want]
+        return "resources at %s, sub-sites at %s: %s%s" % (sorted(model.resources) or "-", sorted(model.subsites) or "-",
+                                                              ("not listed: %s " % (missing,)) if missing else "", ("listed but not expected: %s" % (extra,)) if extra else
+                                                              ("" if missing else "entries listed %s, expected %s" % (sorted(got, key=repr), sorted(want, key=repr))))
+    return None
+
+
+@R.clause("C17.f", "the listing names exactly the registered resources that do not hide themselves under '/' + '/'.join(path), plus the links of nested sites prefixed with the nested site's path, and is computed from the live tables")
 def f(ctx):
     fi = ctx.prog.func(SITE + "get_resources_as_linkheader")
-    cfg = cfg_of(fi)
-    # the listing is computed afresh from the two tables on every call: it must not read or keep any other
-    # per-site state (a cached listing cannot notice changes made in a nested site)
-    other_state = sorted({n.attr for n in ast.walk(fi.node) if isinstance(n, ast.Attribute) and isinstance(n.value, ast.Name) and n.value.id == "self" and n.attr not in TABLES and n.attr.startswith("_") and not n.attr.startswith("__")})
-    first = next((n for n in ast.walk(fi.node) if isinstance(n, ast.Attribute) and isinstance(n.value, ast.Name) and n.value.id == "self" and n.attr in other_state), None)
-    ctx.ob("the listing depends on no per-site state other than the two tables (nothing cached between calls)", not other_state, fi, first if first is not None else fi.node,
-           construct="get_resources_as_linkheader state: %s" % (", ".join(other_state) or "tables only"))
-    if other_state:
+    if registration_refuted(ctx, "the listings"):
         return
-    loops = [n for n in walk_no_nested(fi.node) if isinstance(n, (ast.For, ast.AsyncFor))]
-    top = [l for l in loops if not any(o is not l and contains(o, l) for o in loops)]
-    by_table = {}
-    for l in top:
-        m = match("self.$t.items()", l.iter)
-        ctx.need(m is not None and m["t"] in TABLES and isinstance(l.target, ast.Tuple) and len(l.target.elts) == 2 and all(isinstance(x, ast.Name) for x in l.target.elts),
-                 "get_resources_as_linkheader: top-level loop is not `for path, resource in self.<table>.items()`: `%s`" % stmt_text(l.iter, 60))
-        by_table.setdefault(m["t"], []).append(l)
-    for t in TABLES:
-        ctx.ob("the listing iterates %s" % t, len(by_table.get(t, [])) == 1, fi, by_table[t][0] if by_table.get(t) else fi.node, construct="listing loop over %s" % t, detail="%d loop(s)" % len(by_table.get(t, [])))
-    # result: LinkFormat(<the accumulated list>)
-    rets = [n for n in walk_no_nested(fi.node) if isinstance(n, ast.Return)]
-    ctx.need(len(rets) == 1 and rets[0].value is not None, "get_resources_as_linkheader: expected a single return")
-    m = match("LinkFormat($acc)", rets[0].value)
-    ctx.need(m is not None and isinstance(m["acc"], ast.Name), "get_resources_as_linkheader does not return LinkFormat(<local list>)")
-    acc = m["acc"].id
-    accdefs = writes_to_name(fi.node, acc)
-    ctx.ob("the listing starts from an empty list", len(accdefs) == 1 and isinstance(accdefs[0], ast.Assign) and isinstance(accdefs[0].value, ast.List) and not accdefs[0].value.elts
-           and not any(contains(l, accdefs[0]) for l in loops), fi, accdefs[0] if accdefs else fi.node)
-    ctx.ob("the listing is complete when it returns (both loops run to exhaustion: no break/return inside them)",
-           not any(isinstance(n, (ast.Break, ast.Return)) for l in top for n in walk_no_nested(l)), fi, rets[0])
-    appends = [n for n, b_ in find("%s.append($x)" % acc, fi.node)]
+    world = World(ctx)
 
-    def slash_path(e, pathvar):
-        """e == "/" + "/".join(pathvar) ?"""
-        ops = plus_operands(e)
-        if len(ops) != 2 or try_eval(ctx.prog, fi.module, ops[0]) != "/":
-            return False
-        mj = match("$s.join(%s)" % pathvar, ops[1])
-        return mj is not None and try_eval(ctx.prog, fi.module, mj["s"]) == "/"
+    def site_with(entries):
+        site, model = world.new_site(), Model()
+        world.build_into(site, model, entries)
+        return site, model
 
-    # --- resources
-    for l in by_table.get("_resources", []):
-        pathv, resv = l.target.elts[0].id, l.target.elts[1].id
-        hn = cfg.loc1(l)
-        T = [d for d, lab in cfg.succ[hn] if lab == "T"][0]
-        mine = [a_ for a_ in appends if contains(l, a_)]
-        ctx.floor("appends in the _resources loop", len(mine), 1)
-        an = [cfg.loc1(a_) for a_ in mine]
-        # branch outcomes inside the loop on which the description is known to be None
-        none_sides, other_sides = [], []
-        for n in cfg.nodes:
-            if n.kind in ("T", "F") and cfg.is_reachable(n.id) and n.id != T and isinstance(n.ast, ast.expr) and contains(l, n.ast):
-                mm = match("$d is None", n.ast)
-                mn = match("$d is not None", n.ast)
-                dvar = None
-                if mm is not None and isinstance(mm["d"], ast.Name):
-                    dvar, is_none = mm["d"].id, n.kind == "T"
-                elif mn is not None and isinstance(mn["d"], ast.Name):
-                    dvar, is_none = mn["d"].id, n.kind == "F"
-                if dvar is None:
-                    other_sides.append(n)
-                    continue
-                tn = [x for x in cfg.locate(n.ast) if cfg.nodes[x].kind == "test"][0]
-                vals = []
-                for w in reaching_defs(fi, dvar, tn):
-                    dv = def_value(w, dvar) if w != PARAM else (PARAM,)
-                    if dv[0] == "expr" and isinstance(dv[1], ast.IfExp):
-                        vals.extend([dv[1].body, dv[1].orelse])
-                    else:
-                        vals.append(dv[1] if dv[0] == "expr" else None)
-                okd = bool(vals) and all(v is not None and (match("%s.get_link_description()" % resv, v) is not None or (isinstance(v, ast.Dict) and not v.keys)) for v in vals) \
-                    and any(v is not None and match("%s.get_link_description()" % resv, v) is not None for v in vals)
-                ctx.ob("the description tested for None is the resource's own get_link_description() (an absent method counts as {})", okd, fi, n.ast, construct="description source")
-                if okd and is_none:
-                    none_sides.append(n.id)
-        ok = cfg.must_pass(T, an + none_sides, to=hn)
-        ctx.ob("a resource is left out of the listing only when its link description is None", ok, fi, l, construct="skip condition of the _resources loop",
-               detail="branch conditions in the loop: %s" % sorted({stmt_text(n.ast, 60) for n in other_sides}))
-        ctx.ob("a resource whose description is None is not listed", bool(none_sides) and not any(a_ in cfg.reach({ns}, avoid={hn}) for ns in none_sides for a_ in an), fi, l, construct="None description hides the resource",
-               detail="%d branch outcome(s) with a None description" % len(none_sides))
-        for a_ in mine:
-            x = resolve_at(fi, a_.args[0], cfg.loc1(a_))
-            ml = match("Link($href, $*r, $**kw)", x)
-            ctx.ob("a resource is listed under '/' + '/'.join(<its registered path>)", ml is not None and slash_path(resolve_at(fi, ml["href"], cfg.loc1(a_)), pathv), fi, a_, detail="link: %s" % stmt_text(x, 80))
-    # --- sub-sites
-    for l in by_table.get("_subsites", []):
-        pathv, resv = l.target.elts[0].id, l.target.elts[1].id
-        inner = [n for n in walk_no_nested(l) if isinstance(n, (ast.For, ast.AsyncFor)) and n is not l]
-        ctx.need(len(inner) == 1 and isinstance(inner[0].target, ast.Name), "listing: expected one inner loop over the sub-site's links")
-        il = inner[0]
-        mi = match("%s.get_resources_as_linkheader().links" % resv, il.iter)
-        ctx.ob("nested links are taken from the sub-site's own get_resources_as_linkheader()", mi is not None, fi, il.iter)
-        lv = il.target.id
-        mine = [a_ for a_ in appends if contains(il, a_)]
-        ctx.floor("appends in the sub-site loop", len(mine), 1)
-        ihn = cfg.loc1(il)
-        iT = [d for d, lab in cfg.succ[ihn] if lab == "T"][0]
-        ctx.ob("every link of a sub-site is listed", cfg.must_pass(iT, [cfg.loc1(a_) for a_ in mine], to=ihn) and not any(isinstance(n, (ast.Continue, ast.Break)) for n in walk_no_nested(il)), fi, il)
-        for a_ in mine:
-            x = resolve_at(fi, a_.args[0], cfg.loc1(a_))
-            ml = match("Link($href, $*r, $**kw)", x)
-            ok = False
-            if ml is not None:
-                ops = plus_operands(resolve_at(fi, ml["href"], cfg.loc1(a_)))
-                ok = len(ops) == 3 and slash_path(ast.BinOp(left=ops[0], op=ast.Add(), right=ops[1]), pathv) and chain(ops[2]) == "%s.href" % lv
-                ok = ok and len(ml["r"]) == 1 and chain(ml["r"][0]) == "%s.attr_pairs" % lv
-            ctx.ob("a nested link is listed under the sub-site's path followed by its own href, with its attributes", ok, fi, a_, detail="link: %s" % stmt_text(x, 90))
-        # a sub-site is skipped only when it cannot list itself
-        gs = [(e_, pol) for e_, pol, pid in cfg.guards(ihn) if contains(l, e_) and not isinstance(e_, ast.stmt)]
-        okg = all(pol and match("hasattr(%s, $n)" % resv, e_) is not None and match("hasattr(%s, $n)" % resv, e_)["n"].value == "get_resources_as_linkheader" for e_, pol in gs
-                  if match("hasattr(%s, $n)" % resv, e_) is not None and isinstance(match("hasattr(%s, $n)" % resv, e_)["n"], ast.Constant)) and \
-            all(match("hasattr(%s, $n)" % resv, e_) is not None for e_, pol in gs)
-        ctx.ob("a sub-site is left out of the listing only when it offers no get_resources_as_linkheader", okg, fi, il, detail="conditions: %s" % [(stmt_text(e_, 60), pol) for e_, pol in gs], construct="sub-site listing condition")
-    stray = [a_ for a_ in appends if not any(contains(l, a_) for l in top)]
-    ctx.ob("nothing besides the registered resources and the sub-sites' links is listed", not stray, fi, stray[0] if stray else fi.node, construct="listing: stray entries")
+    # --- plain resources
+    shown = [(("a",), world.resource("a", {"rt": "temperature", "ct": "40"})), (("b", "c"), world.resource("bc")), (("d",), world.resource("d", {})),
+             (("e", ""), world.resource("e/", {"if": "core.s"})), ((), world.resource("root", {"title": "root"}))]
+    site, model = site_with(shown)
+    msg = compare_listing(world, site, model)
+    ctx.ob("every registered resource whose description is not None (also {} and resources without get_link_description) is listed under '/' + '/'.join(<its registered path>) with the attributes of its description",
+           not msg, fi, fi.node, construct="listing: registered resources", detail=msg)
+    site, model = site_with(shown[:2] + [(("h",), world.resource("hidden", None)), (("h", "i"), world.resource("shown", {"rt": "x"}))])
+    msg = compare_listing(world, site, model)
+    ctx.ob("a resource is left out of the listing exactly when its link description is None", not msg, fi, fi.node, construct="listing: hidden resources", detail=msg)
+    # --- resources that describe themselves through the package's own get_link_description (ct / rt / if_ attributes)
+    ctx.prog.cls("resource.Resource")
+    plain = Obj(cls="aiocoap.resource.Resource", label="Resource()")
+    plain.expected_description = {}
+    full = Obj(cls="aiocoap.resource.Resource", label="Resource(ct, rt, if_)", attrs={"ct": 40, "rt": "temperature", "if_": "core.s"})
+    full.expected_description = {"ct": "40", "rt": "temperature", "if": "core.s"}
+    site, model = site_with([(("p",), plain), (("q", "r"), full)])
+    msg = compare_listing(world, site, model, ordered_pairs=False)
+    ctx.ob("a resource exposing ct / rt / if_ attributes is listed with ct, rt and if link attributes of those values", not msg, fi, fi.node, construct="listing: well-known attributes", detail=msg)
+    # --- nested sites
+    deep, deep_model = site_with([(("deep",), world.resource("deep", {"rt": "d"}))])
+    inner, inner_model = site_with([(("x",), world.resource("x", {"rt": "y"})), (("y", "z"), world.resource("yz")), ((), world.resource("inner root", {})), (("n",), deep)])
+    empty, empty_model = site_with([])
+    foreign = world.resource("foreign PathCapable", path_capable=True)
+    outer, outer_model = site_with([(("a",), world.resource("a", {"rt": "temperature"})), (("s",), inner), (("t", "u"), foreign), (("v",), empty), (("a", "w"), deep)])
+
+    def reference():
+        ref_deep = spec_listing(deep_model, {id(r_): description_of(r_) for r_ in deep_model.resources.values()}, {})
+        ref_inner = spec_listing(inner_model, {id(r_): description_of(r_) for r_ in inner_model.resources.values()}, {id(deep): ref_deep})
+        return {id(inner): ref_inner, id(deep): ref_deep, id(empty): [], id(foreign): None}
+
+    msg = compare_listing(world, outer, outer_model, reference())
+    ctx.ob("the links of a nested site (taken from its own get_resources_as_linkheader()) are listed with the nested site's path prefixed to their href and with their attributes, through several levels; "
+           "a sub-site is left out only when it offers no get_resources_as_linkheader", not msg, fi, fi.node, construct="listing: nested sites", detail=msg)
+    # --- computed afresh from the live tables
+    if any(o["verdict"] == "refuted" and o["clause"] == ctx.clause for o in ctx.obligations):
+        ctx.note("changes after the first listing not evaluated: the listing already disagrees with the reference on unchanged sites")
+        return
+    stale = None
+    late = world.resource("late", {"rt": "l"})
+    world.build_into(inner, inner_model, [(("late",), late)])
+    stale = compare_listing(world, outer, outer_model, reference())
+    stale = stale and "after a resource was added to a nested site: " + stale
+    if not stale:
+        late2 = world.resource("late2", {})
+        world.build_into(deep, deep_model, [(("x", "y"), late2)])
+        stale = compare_listing(world, outer, outer_model, reference())
+        stale = stale and "after a resource was added two levels down: " + stale
+    for site_, model_, key, what in ((outer, outer_model, ("a",), "after a resource was removed: "), (inner, inner_model, ("x",), "after a resource was removed from a nested site: ")):
+        if stale:
+            break
+        out = world.remove(site_, key)
+        if out != ("return", None):
+            ctx.note("removals not evaluated in the listing: remove_resource(%r) %s (reported by C17.d)" % (key, show_outcome(out)))
+            break
+        del model_.resources[key]
+        stale = compare_listing(world, outer, outer_model, reference())
+        stale = stale and what + stale
+    ctx.ob("the listing is computed afresh from the live tables on every call: later registrations and removals, in this site and in nested sites, show up (nothing is cached between calls)",
+           not stale, fi, fi.node, construct="listing: live", detail=stale)
 
 
 # ---------------------------------------------------------------------------
 # C17.g
 
+LINKS = [
+    # (href, [(attribute, value), ...])
+    ("/a", [("rt", "temp sensor")]),
+    ("/b/c", [("rt", "temp-x"), ("if", "core.s")]),
+    ("/abc", []),
+    ("/d", [("ct", "40 41"), ("foo", "bar"), ("foo", "baz")]),
+    ("/e", [("rt", "te"), ("ct", "0"), ("obs", None)]),
+    ("/f", [("rt", "a=b"), ("sz", "10")]),
+    ("/g", [("rt", "x"), ("rt", "y z"), ("foo", "ba")]),
+]
 
-def _closure_value(fnode, name, outer):
-    """Does local/parameter `name` of nested function `fnode` denote the outer variable `outer`
-    (default-argument capture `v=v` or plain closure)?"""
-    a = fnode.args
-    allargs = a.posonlyargs + a.args
-    defaults = [None] * (len(allargs) - len(a.defaults)) + list(a.defaults)
-    for arg, dflt in list(zip(allargs, defaults)) + list(zip(a.kwonlyargs, a.kw_defaults)):
-        if arg.arg == name:
-            return dflt is not None and isinstance(dflt, ast.Name) and dflt.id == outer
-    return name == outer
+SINGLE_VALUED = ("rel", "anchor", "rev", "media", "title", "title*", "type")  # link_header.SINGLE_VALUED_ATTRS: not used as filter keys below
+
+
+def spec_filter(query):
+    """indices of LINKS kept by an RFC 6690 filter query with at most one item carrying '=' (reference semantics)"""
+    items = [q.split("=", 1) for q in query if "=" in q]
+    if not items:
+        return list(range(len(LINKS)))
+    (k, v), = items
+    if v.endswith("*"):
+        m = lambda x: x.startswith(v[:-1])
+    else:
+        m = lambda x: x == v
+    keep = []
+    for i, (href, pairs) in enumerate(LINKS):
+        values = [val for key, val in pairs if key.lower() == k.lower()]
+        if k in ("rt", "if", "ct"):
+            ok = any(m(tok) for tok in " ".join(values).split(" "))
+        elif k == "href":
+            ok = m(href)
+        else:
+            ok = any(m(val) for val in values)
+        if ok:
+            keep.append(i)
+    return keep
+
+
+QUERIES = {
+    "prefix": [("rt=temp*",), ("rt=te*",), ("rt=*",), ("if=core*",), ("ct=4*",), ("href=/a*",), ("href=/b*",), ("foo=ba*",), ("foo=bar*",), ("rt=sensor*",)],
+    "equal": [("rt=temp",), ("rt=te",), ("rt=sensor",), ("rt=tem",), ("if=core.s",), ("if=core",), ("ct=40",), ("ct=4",), ("href=/a",), ("href=/abc",), ("href=/",), ("foo=bar",), ("foo=ba",), ("foo=b",)],
+    "tokens": [("rt=temp",), ("rt=sensor",), ("rt=temp sensor",), ("ct=41",), ("ct=40",), ("ct=40 41",), ("if=core.s",), ("rt=y",), ("rt=z",), ("rt=y z",), ("ct=0",)],
+    "href": [("href=/a",), ("href=/b/c",), ("href=/a*",), ("href=a",), ("href=/",), ("href=*",)],
+    "other": [("foo=bar",), ("foo=baz",), ("foo=bar baz",), ("sz=10",), ("sz=1*",), ("nope=x",), ("nope=*",), ("=x",)],
+    "no-equals": [(), ("nofilter",), ("nofilter", "rt=temp"), ("rt=temp", "nofilter"), ("x", "y"), ("rt",), ("*",)],
+    "first-equals": [("rt=a=b",), ("rt=a=*",), ("rt=a",), ("foo==",)],
+}
 
 
 @R.clause("C17.g", "RFC 6690 filter: k=v* is a prefix match, otherwise equality; rt/if/ct per space-separated token; href on the single value; an item without '=' is not a filter")
 def g(ctx):
     fi = ctx.prog.func("resource.WKCResource.render_get")
-    cfg = cfg_of(fi)
-    p = params(fi)
-    ctx.need(len(p) == 1, "WKCResource.render_get signature changed")
-    req = p[0]
-    loops = [n for n in walk_no_nested(fi.node) if isinstance(n, ast.For) and chain(n.iter) == "%s.opt.uri_query" % req and isinstance(n.target, ast.Name)]
-    ctx.need(len(loops) == 1, "render_get: expected one loop over the request's Uri-Query items")
-    loop = loops[0]
-    q = loop.target.id
-    hn = cfg.loc1(loop)
-    # --- splitting
-    splits = [(n, b_) for n, b_ in find("($k, $v) = %s.split($*a)" % q, loop)]
-    ctx.need(len(splits) == 1 and all(isinstance(splits[0][1][x], ast.Name) for x in ("k", "v")), "render_get: expected `k, v = item.split('=', 1)`")
-    sp, sb = splits[0]
-    k, v = sb["k"].id, sb["v"].id
-    sa = sb["a"]
-    ctx.ob("a query item is split at its first '=' into key and value", len(sa) == 2 and try_eval(ctx.prog, fi.module, sa[0]) == "=" and try_eval(ctx.prog, fi.module, sa[1]) == 1 and not sp.value.keywords, fi, sp)
-    sn = cfg.loc1(sp)
-    hs = [d for d, lab in cfg.succ[sn] if lab == "exc" and cfg.nodes[d].kind == "handler"]
-    appends = [n for n, b_ in find("$f.append($x)", loop)]
-    ctx.floor("filter registrations in render_get", len(appends), 2)
-    an = [cfg.loc1(a_) for a_ in appends]
-    okh = False
-    for d in hs:
-        h = cfg.nodes[d].ast
-        types = [] if h.type is None else (h.type.elts if isinstance(h.type, ast.Tuple) else [h.type])
-        if h.type is None or any(ctx.prog.is_subclass("ValueError", ctx.prog.resolve_in_module(fi.module, chain(t) or "?")) for t in types):
-            r = cfg.reach({d}, avoid={hn}, include_src=True)
-            okh = not (set(an) & r) and cfg.exit not in r and not any(cfg.nodes[x].kind == "raise" for x in r)
-            break
-    ctx.ob("a query item without '=' registers no filter and does not fail the request", okh, fi, sp, construct="item without '='")
-    # --- matcher: prefix for a trailing '*', equality otherwise
-    defs = [n for n in walk_no_nested(loop) if isinstance(n, ast.FunctionDef)]
-    lamdefs = [n for n in walk_no_nested(loop) if isinstance(n, ast.Assign) and isinstance(n.value, ast.Lambda) and len(n.targets) == 1 and isinstance(n.targets[0], ast.Name)]
-    matchers = {}
-    for n in defs:
-        matchers.setdefault(n.name, []).append((n, n, [s for s in n.body if not (isinstance(s, ast.Expr) and isinstance(s.value, ast.Constant))]))
-    for n in lamdefs:
-        matchers.setdefault(n.targets[0].id, []).append((n, n.value, [ast.Return(value=n.value.body)]))
-    cands = [(nm, ds) for nm, ds in matchers.items() if len(ds) == 2]
-    ctx.need(len(cands) == 1, "render_get: expected one matcher defined in two variants (prefix / equality)")
-    mname, variants = cands[0]
-    seen = set()
-    for stmt, fn, body in variants:
-        ctx.need(len(body) == 1 and isinstance(body[0], ast.Return) and body[0].value is not None and len(fn.args.posonlyargs + fn.args.args) >= 1, "render_get: matcher variant is not a single return expression")
-        x = (fn.args.posonlyargs + fn.args.args)[0].arg
-        rv = body[0].value
-        star = None
-        for e_, pol in guard_exprs(cfg, cfg.loc1(stmt)):
-            ms = match("%s.endswith($s)" % v, e_)
-            if ms is not None and try_eval(ctx.prog, fi.module, ms["s"]) == "*":
-                star = pol
-        ctx.need(star is not None, "render_get: matcher variant is not selected by `value.endswith('*')`")
-        if star:
-            mp = match("%s.startswith($pre)" % x, rv)
-            ok = False
-            if mp is not None:
-                sp_ = _slice_parts(mp["pre"])
-                ok = sp_ is not None and isinstance(sp_[0], ast.Name) and _closure_value(fn, sp_[0].id, v) and sp_[1] is None and sp_[2] is not None and _cint(sp_[2]) == -1
-            seen.add("prefix")
-            ctx.ob("a value ending in '*' matches every attribute value that starts with the text before the '*'", ok, fi, stmt, detail="matcher: %s" % stmt_text(rv, 60), construct="matcher for 'v*': %s" % stmt_text(rv, 60))
-        else:
-            ok = False
-            if isinstance(rv, ast.Compare) and len(rv.ops) == 1 and isinstance(rv.ops[0], ast.Eq):
-                l, r = rv.left, rv.comparators[0]
-                if isinstance(r, ast.Name) and r.id == x:
-                    l, r = r, l
-                ok = isinstance(l, ast.Name) and l.id == x and isinstance(r, ast.Name) and _closure_value(fn, r.id, v)
-            seen.add("equal")
-            ctx.ob("a value without trailing '*' matches by equality", ok, fi, stmt, detail="matcher: %s" % stmt_text(rv, 60), construct="matcher for 'v': %s" % stmt_text(rv, 60))
-    ctx.ob("both matcher variants exist", seen == {"prefix", "equal"}, fi, loop, construct="matcher variants", detail=sorted(seen))
-    ctx.ob("the value is not modified between splitting and matching", len(writes_to_name(fi.node, v)) == 1 and len(writes_to_name(fi.node, k)) == 1, fi, sp, construct="filter key/value re-bound")
-    # --- per-attribute evaluation
-    kinds = set()
-    for a_ in appends:
-        lam = a_.args[0] if a_.args else None
-        ctx.need(isinstance(lam, ast.Lambda) and len(lam.args.args) == 1, "render_get: a registered filter is not a one-argument lambda")
-        link = lam.args.args[0].arg
-        body = lam.body
-        keyset = None
-        for e_, pol in guard_exprs(cfg, cfg.loc1(a_)):
-            if isinstance(e_, ast.Compare) and len(e_.ops) == 1 and isinstance(e_.ops[0], ast.In) and isinstance(e_.left, ast.Name) and e_.left.id == k and pol:
-                vals = try_eval(ctx.prog, fi.module, e_.comparators[0])
-                if isinstance(vals, (tuple, list, set, frozenset)):
-                    keyset = frozenset(vals)
-        calls = [n for n in ast.walk(body) if isinstance(n, ast.Call) and isinstance(n.func, ast.Name) and n.func.id == mname]
-        ctx.ob("a registered filter decides through the matcher", len(calls) == 1, fi, a_)
-        if len(calls) != 1:
-            continue
-        arg = calls[0].args[0] if calls[0].args else None
-        tokenwise = match("any(%s($part) for $part in $src.split($sp))" % mname, body)
-        listwise = match("any(%s($part) for $part in getattr(%s, %s, $dflt))" % (mname, link, k), body)
-        single = match("%s(getattr(%s, %s))" % (mname, link, k), body)
-        if single is None:
-            single = match("%s(getattr(%s, %s, $dflt))" % (mname, link, k), body)
-        if keyset is not None and keyset == {"rt", "if", "ct"}:
-            kinds.add("tokens")
-            ok = tokenwise is not None and try_eval(ctx.prog, fi.module, tokenwise["sp"]) == " "
-            if ok:
-                mj = match("$j.join(getattr(%s, %s, $dflt))" % (link, k), tokenwise["src"])
-                ok = mj is not None and try_eval(ctx.prog, fi.module, mj["j"]) == " "
-            ctx.ob("rt / if / ct are matched per space-separated token of all values of the attribute", bool(ok), fi, a_, detail="filter: %s" % stmt_text(body, 100))
-        elif keyset is not None and keyset == {"href"}:
-            kinds.add("href")
-            ctx.ob("href is matched on the link's single target value", single is not None, fi, a_, detail="filter: %s" % stmt_text(body, 100))
-        elif keyset is None:
-            kinds.add("other")
-            ctx.ob("any other attribute matches if one of its values matches", listwise is not None, fi, a_, detail="filter: %s" % stmt_text(body, 100))
-        else:
-            ctx.ob("the attribute classes of the filter are {rt, if, ct}, {href} and the rest", False, fi, a_, detail="class %s" % sorted(keyset))
-    ctx.ob("the filter distinguishes token-valued attributes, href and other attributes", kinds == {"tokens", "href", "other"}, fi, loop, construct="filter attribute classes", detail=sorted(kinds))
-    # --- application: every registered filter is applied to the listing
-    m = [n for n, b_ in find("$l.links = filter($f.pop(), $l.links)", fi.node)]
-    okw = False
-    for n in m:
-        par = cfg.parent.get(id(n))
-        if isinstance(par, ast.While) and isinstance(par.test, ast.Name) and match("%s.append($x)" % par.test.id, appends[0]) is not None:
-            okw = cfg.dominates(cfg.loc1(par), [x for x in cfg.nodes if x.kind == "return" and cfg.is_reachable(x.id)][0].id)
-    ctx.ob("every registered filter is applied to the listing before it is rendered", okw, fi, m[0] if m else fi.node, construct="filter application loop")
-    ctx.note("observation (not a clause): the filter lambdas capture the key and the matcher by late binding; with two filter items both closures use the last pair (RFC 6690 defines a single filter item)")
+    ctx.need(len(params(fi)) == 1, "WKCResource.render_get signature changed")
+    rendered = []
+
+    def lf2m(it, a, k):
+        args = list(a) + list(k.values())
+        for x in args:
+            if isinstance(x, Obj) and "links" in x.attrs:
+                x.attrs["links"] = list(it.iterate(x.attrs["links"]))  # rendering reads the links
+                rendered.append(list(x.attrs["links"]))
+        resp = Obj(label="response", open_=True)
+        resp.attrs["opt"] = Obj(label="response.opt", open_=True)
+        return resp
+
+    world = World(ctx, stubs={"aiocoap.resource.link_format_to_message": Builtin("link_format_to_message", lf2m)})
+    it = world.it
+    link_cls = it.qualified("aiocoap.util.linkformat.Link")
+    lf_cls = it.qualified("aiocoap.util.linkformat.LinkFormat")
+    ctx.need(isinstance(link_cls, ClassVal) and isinstance(lf_cls, ClassVal), "util.linkformat.Link / LinkFormat missing")
+
+    def evaluate(query):
+        made = {}
+
+        def listgenerator(it_, a, k):
+            links = [it_.instantiate(link_cls, [href, [list(p) for p in pairs]], {}) for href, pairs in LINKS]
+            made["links"] = links
+            made["lf"] = it_.instantiate(lf_cls, [list(links)], {})
+            return made["lf"]
+
+        me = Obj(cls=WKC_QN, label="wkc", attrs={"listgenerator": Builtin("listgenerator", listgenerator), "impl_info": None})
+        opt = Obj(label="request.opt", open_=True, attrs={"uri_query": tuple(query), "no_response": None, "accept": None})
+        remote = Obj(label="request.remote", open_=True, attrs={"is_multicast_locally": False, "is_multicast": False})
+        req = Obj(cls=MSG_QN, label="request", open_=True, attrs={"opt": opt, "remote": remote})
+        del rendered[:]
+        out = it.run(it.getattr_(me, "render_get"), [req])
+        if out[0] != "return":
+            return "render_get %s" % show_outcome(out)
+        if "lf" not in made:
+            raise AnalysisError("C17.g: render_get does not obtain the listing from self.listgenerator()")
+        final = rendered[-1] if rendered else list(it.iterate(made["lf"].attrs.get("links", [])))
+        got = []
+        for l in final:
+            idx = [i for i, x in enumerate(made["links"]) if x is l]
+            if not idx:
+                return "the rendered listing contains %r, which is not one of the listed links" % (l,)
+            got.append(idx[0])
+        want = spec_filter(query)
+        if sorted(got) != want:
+            return "kept %s, the reference filter keeps %s" % ([LINKS[i][0] for i in sorted(got)], [LINKS[i][0] for i in want])
+        return None
+
+    descs = {
+        "prefix": "a value ending in '*' matches every attribute value (token) that starts with the text before the '*'",
+        "equal": "a value without trailing '*' matches by equality",
+        "tokens": "rt / if / ct are matched per space-separated token of all values of the attribute",
+        "href": "href is matched on the link's single target value",
+        "other": "any other attribute matches if one of its values matches",
+        "no-equals": "a query item without '=' registers no filter and does not fail the request; every registered filter is applied to the listing before it is rendered",
+        "first-equals": "a query item is split at its first '=' into key and value",
+    }
+    for fam, queries in QUERIES.items():
+        bad = []
+        for q in queries:
+            msg = evaluate(q)
+            if msg:
+                bad.append("Uri-Query %r: %s" % (list(q), msg))
+        ctx.ob(descs[fam], not bad, fi, fi.node, construct="link filter: %s" % fam, detail=bad[0] if bad else "%d queries evaluated" % len(queries))
+    ctx.note("observation (not a clause): the filter closures capture the key and the matcher by late binding; with two filter items carrying '=' both use the last pair (RFC 6690 defines a single filter item), so only single-item queries are evaluated")
 
 
 # ---------------------------------------------------------------------------
@@ -1043,6 +1140,7 @@ LOOP = ("        remainder = [request.opt.uri_path[-1]]\n        path = request.
         "            remainder.insert(0, path[-1])\n            path = path[:-1]\n")
 R.seed("C17.a", F_R, EXACT + EMPTY + LOOP + "        raise KeyError()\n",
        "        if request.opt.uri_path:\n    " + LOOP.replace("\n        ", "\n            ").rstrip(" ") + "\n" + EXACT + "        raise KeyError()\n", "sub-sites searched before resources")
+R.seed("C17.a", F_R, "            stripped = request.copy(uri_path=())\n", "            stripped = request.copy(uri_path=request.opt.uri_path[-1:])\n", "exact match leaves the last component in the path")
 # C17.b
 R.seed("C17.b", F_R, "        path = request.opt.uri_path[:-1]\n        while path:", "        path = request.opt.uri_path\n        while path:", "the full path is tried as a sub-site prefix (not a proper prefix; invariant broken)")
 R.seed("C17.b", F_R, "            remainder.insert(0, path[-1])\n            path = path[:-1]\n", "            path = path[:-1]\n            remainder.insert(0, path[-1])\n", "element read after shortening")
@@ -1053,6 +1151,10 @@ R.seed("C17.b", F_R, "                if remainder == [\"\"]:", "               
 R.seed("C17.b", F_R, "                stripped = request.copy(uri_path=remainder)\n                stripped._original_request_path = original_request_path\n                return res, stripped\n", "                stripped = request.copy(uri_path=remainder)\n                stripped._original_request_path = original_request_path\n                best = res, stripped\n", "loop does not stop at the first (longest) match")
 R.seed("C17.b", F_R, "            path = path[:-1]\n        raise KeyError()", "            path = path[:-1]\n        raise ValueError()", "exhaustion not signalled by KeyError")
 R.seed("C17.b", F_R, "        remainder = [request.opt.uri_path[-1]]\n        path = request.opt.uri_path[:-1]\n        while path:\n            if path in self._subsites:", "        remainder = [request.opt.uri_path[-1]]\n        path = request.opt.uri_path[:1]\n        while path:\n            if path in self._subsites:", "shortest prefix first")
+R.seed("C17.b", F_R, "        remainder = [request.opt.uri_path[-1]]\n        path = request.opt.uri_path[:-1]\n", "        remainder = [request.opt.uri_path[-1]]\n        if remainder == [\"\"]:\n            remainder = []\n        path = request.opt.uri_path[:-1]\n", "trailing-slash normalisation hoisted before the loop: /a/dir/ below a sub-site at /a reaches ['dir'] instead of ['dir','']")
+R.seed("C17.b", F_R, "        while path:\n            if path in self._subsites:", "        while len(path) > 1:\n            if path in self._subsites:", "one-component prefixes are never tried")
+R.seed("C17.b", F_R, "            remainder.insert(0, path[-1])\n            path = path[:-1]\n", "            remainder.insert(0, path[-1])\n", "the candidate is never shortened: the search does not terminate")
+R.seed("C17.b", F_R, "                stripped = request.copy(uri_path=remainder)\n", "                stripped = request.copy(uri_path=remainder)\n                self._subsites.pop(path)\n", "the lookup modifies the table")
 # C17.c
 R.seed("C17.c", F_R, "        try:\n            child, subrequest = self._find_child_and_pathstripped_message(request)\n        except KeyError:\n            raise error.NotFound()\n", "        try:\n            child, subrequest = self._find_child_and_pathstripped_message(request)\n        except KeyError:\n            raise error.MethodNotAllowed()\n", "unknown path answered 4.05")
 R.seed("C17.c", F_R, "        except KeyError:\n            return True\n", "        except IndexError:\n            return True\n", "KeyError leaves needs_blockwise_assembly")
@@ -1064,24 +1166,31 @@ R.seed("C17.d", F_R, "        else:\n            self._resources[tuple(path)] = 
 R.seed("C17.d", F_R, "        if request.opt.uri_path in self._resources:\n            stripped = request.copy(uri_path=())\n            stripped._original_request_path = original_request_path\n            return self._resources[request.opt.uri_path], stripped\n",
        "        if not hasattr(self, \"_table\"):\n            self._table = dict(self._resources)\n        if request.opt.uri_path in self._resources:\n            stripped = request.copy(uri_path=())\n            stripped._original_request_path = original_request_path\n            return self._table[request.opt.uri_path], stripped\n", "lookup through a cached copy of the table")
 R.seed("C17.d", F_R, "            raise error.NotFound()\n        else:\n            return await child.render(subrequest)\n", "            raise error.NotFound()\n        else:\n            self._resources.pop(request.opt.uri_path, None)\n            return await child.render(subrequest)\n", "foreign writer of the table")
+R.seed("C17.d", F_R, "            raise error.NotFound()\n        else:\n            return await child.render(subrequest)\n", "            raise error.NotFound()\n        else:\n            table = self._subsites if request.opt.uri_path else self._resources\n            table[request.opt.uri_path] = child\n            return await child.render(subrequest)\n", "foreign writer of the tables through a local alias")
+R.seed("C17.d", F_R, "    def __init__(self):\n        self._resources = {}\n        self._subsites = {}\n", "    _resources = {}\n    _subsites = {}\n\n    def __init__(self):\n        pass\n", "tables shared by all sites")
+R.seed("C17.d", F_R, "        try:\n            del self._subsites[tuple(path)]\n        except KeyError:\n            del self._resources[tuple(path)]\n", "        self._subsites.pop(tuple(path), None)\n        self._resources.pop(tuple(path), None)\n", "removal of an unknown path passes silently, removal of a doubly registered path removes both")
+R.seed("C17.d", F_R, "        if isinstance(path, str):\n            raise ValueError(\"Paths should be tuples or lists of strings\")\n", "        if isinstance(path, str):\n            return\n", "registration silently dropped")
 # C17.e
 R.seed("C17.e", F_R, "                stripped = request.copy(uri_path=remainder)\n                stripped._original_request_path = original_request_path\n", "                stripped = request.copy(uri_path=remainder)\n", "sub-site arm forgets the original path")
 R.seed("C17.e", F_M, "            if hasattr(self, \"_original_request_path\"):", "            if hasattr(self, \"_original_path\"):", "reader uses a different attribute name")
 R.seed("C17.e", F_R, "            request,\n            \"_original_request_path\",\n            request.opt.uri_path,\n        )", "            request,\n            \"_original_request_path\",\n            request.opt.uri_path[1:],\n        )", "default is not the full path")
 R.seed("C17.e", F_R, "            stripped = request.copy(uri_path=())\n            stripped._original_request_path = original_request_path\n", "            stripped = request.copy(uri_path=())\n            stripped._original_request_path = stripped.opt.uri_path\n", "stores the stripped path")
+R.seed("C17.e", F_R, "            request,\n            \"_original_request_path\",\n            request.opt.uri_path,\n        )", "            request,\n            \"_original_path\",\n            request.opt.uri_path,\n        )", "an inner site does not find the original path stored by the outer site")
+R.seed("C17.a", F_R, "            stripped = request.copy(uri_path=())\n            stripped._original_request_path", "            stripped = request\n            stripped.opt.uri_path = ()\n            stripped._original_request_path", "the caller's message is modified instead of copied")
+R.seed("C17.e", F_R, "            stripped = request.copy(uri_path=())\n", "            stripped = request.copy(uri_path=(), uri_query=())\n", "the copy handed to the resource loses the query")
 # C17.f
 R.seed("C17.f", F_R, "            if details is None:\n                continue\n", "            if not details:\n                continue\n", "resources whose description is {} are hidden")
 R.seed("C17.f", F_R, "            lh = Link(\"/\" + \"/\".join(path), **details)\n", "            lh = Link(\"/\".join(path), **details)\n", "leading slash lost")
 R.seed("C17.f", F_R, "                        Link(\"/\" + \"/\".join(path) + link.href, link.attr_pairs)", "                        Link(link.href, link.attr_pairs)", "nested links not prefixed with the sub-site's path")
 R.seed("C17.f", F_R, "        for path, resource in self._subsites.items():\n            if hasattr(resource, \"get_resources_as_linkheader\"):", "        for path, resource in self._resources.items():\n            if hasattr(resource, \"get_resources_as_linkheader\"):", "sub-sites never listed")
+R.seed("C17.d", F_R, "    def get_resources_as_linkheader(self):\n        links = []\n", "    def get_resources_as_linkheader(self):\n        if getattr(self, \"_links_cache\", None) is not None:\n            return LinkFormat(list(self._links_cache))\n        links = []\n", "cached listing: changes in nested sites are not seen")
+R.seed("C17.f", F_R, "    def get_resources_as_linkheader(self):\n        links = []\n", "    def get_resources_as_linkheader(self):\n        if getattr(self, \"_links_cache\", None) is not None:\n            return LinkFormat(list(self._links_cache))\n        links = self._links_cache = []\n", "listing cached on first use: later registrations are not seen")
+R.seed("C17.f", F_R, "                        Link(\"/\" + \"/\".join(path) + link.href, link.attr_pairs)", "                        Link(\"/\" + \"/\".join(path) + link.href)", "attributes of nested links lost")
 # C17.g
 R.seed("C17.g", F_R, "                    return x.startswith(v[:-1])", "                    return x.startswith(v)", "the '*' itself is part of the prefix")
 R.seed("C17.g", F_R, "                    return x == v\n", "                    return x in v\n", "substring instead of equality")
 R.seed("C17.g", F_R, "            if k in (\"rt\", \"if\", \"ct\"):", "            if k in (\"rt\", \"if\"):", "ct no longer token-wise")
 R.seed("C17.g", F_R, "            except ValueError:\n                continue  # no =, not a relevant filter", "            except ValueError:\n                k, v = q, \"\"", "item without '=' becomes a filter")
 R.seed("C17.g", F_R, "                filters.append(lambda link: matchexp(getattr(link, k)))", "                filters.append(lambda link: any(matchexp(c) for c in getattr(link, k)))", "href matched per character")
-
-
-R.seed("C17.f", "aiocoap/resource.py", "    def get_resources_as_linkheader(self):\n        links = []\n", "    def get_resources_as_linkheader(self):\n        if getattr(self, \"_links_cache\", None) is not None:\n            return LinkFormat(list(self._links_cache))\n        links = []\n", "cached listing: changes in nested sites are not seen")
-
-R.seed("C17.b", "aiocoap/resource.py", "        remainder = [request.opt.uri_path[-1]]\n        path = request.opt.uri_path[:-1]\n", "        remainder = [request.opt.uri_path[-1]]\n        if remainder == [\"\"]:\n            remainder = []\n        path = request.opt.uri_path[:-1]\n", "trailing-slash normalisation hoisted before the loop: /a/dir/ below a sub-site at /a reaches ['dir'] instead of ['dir','']")
+R.seed("C17.g", F_R, "                k, v = q.split(\"=\", 1)\n", "                k, v = q.split(\"=\")\n", "a value containing '=' makes the item be ignored")
+R.seed("C17.g", F_R, "        while filters:\n            links.links = filter(filters.pop(), links.links)\n", "        while filters:\n            filter(filters.pop(), links.links)\n", "filters are evaluated but not applied")
